@@ -1,9 +1,21 @@
 """Model of the graph searches in eval_structure/breadth_first_searches.py (shared by C01, C03, C12, C13, C14).
 
-For every function that expands `direct_successor_nodes` / `direct_predecessor_nodes` the model records the worklist, the
-visited set, the neighbour loop, and every *event* inside the neighbour loop (push onto the worklist, record of a result pair,
-visited-mark) together with the propositional guard under which it happens.  Atoms are normalised so that rules can ask for
-implications such as  guard(push) -> pushed in OWN or pushed in EXC.
+The model is built on a *normalised inline view* of every public search function (private helpers, also those of neighbouring
+modules, are substituted; graph methods and the public search functions themselves stay calls - they are the vocabulary of the
+rules; aliases left behind by the substitution are removed so that every set has one name).  It records
+
+  * the outer iteration over nodes to examine: a worklist loop `while W: n = W.pop()` or - the degenerate worklist to which
+    nothing is ever pushed - `for n in reversed(W)` / `for n in W` / a comprehension generator,
+  * the neighbour iteration(s) over `graph.direct_successor_nodes(n)` / `direct_predecessor_nodes(n)`: a `for` statement or a
+    comprehension generator, directly over the call, over a variable holding it, or over a filtered copy of it,
+  * every *event* (push onto the worklist, record of a result, visited-mark) in all its spellings (`x.append(e)`,
+    `x.extend(<generator>)`, `x += [...]`, `x.add(e)`, `x |= {...}`, `return [e for ...]`) together with the propositional
+    guard under which it happens (path conditions, comprehension filters, filters of a filtered neighbour list, boolean
+    helpers and boolean locals expanded),
+  * the provenance of the node sets the guards talk about: sub-tree of one filter parameter, accumulated sub-trees of the
+    elements of a set parameter, identifiers of the parent-module filters.
+
+Atoms are normalised so that rules can ask for implications such as  guard(push) -> pushed in OWN or pushed in EXC.
 """
 
 from __future__ import annotations
@@ -12,9 +24,10 @@ import ast
 from dataclasses import dataclass, field
 
 from core.guards import Formula, atom, atoms_of, conds_formula, f_and, f_not, f_or, implies, show, to_formula
-from core.loader import AnalysisError, FuncInfo, Repo, ancestors, calls_in, norm, own_nodes, parent
+from core.inline_stmt import Inliner
+from core.loader import AnalysisError, FuncInfo, Repo, ancestors, norm, own_nodes, parent, set_parents
 
-from .common import cfg_of, conds, dotted, guard_formula, is_attr_call, stmt_of, where
+from .common import bool_inliner, cfg_of, conds, dotted, stmt_of, types_of
 from .tables import SEARCHES
 
 SUCC = "direct_successor_nodes"
@@ -22,159 +35,1965 @@ PRED = "direct_predecessor_nodes"
 HIER = "parent_child_relationship"
 SUBMODULES = "get_all_submodules_of"
 
+NODE_ATTR = "identifier"  # ModuleFilter.identifier: the graph node a filter names (public API)
+PARENT_FLAG = "identifier_is_parent_module"  # ModuleFilter: 'sub modules of' filter (public API)
+
+_WRAPPERS = {"list", "sorted", "tuple", "reversed", "iter", "set", "frozenset"}
+_ADDERS = {"append", "add", "appendleft", "insert", "extend", "update", "extendleft"}
+_COMPS = (ast.ListComp, ast.SetComp, ast.GeneratorExp)
+
+
+# --------------------------------------------------------------------------- model
+
 
 @dataclass
 class Event:
     kind: str  # push | record | mark
-    call: ast.Call
-    what: str  # variable pushed / marked, or normalised recorded expression
+    call: ast.AST  # the mutating node: ast.Call (append/extend/add/update/insert), ast.AugAssign (`+=`, `|=`), ast.Return / ast.Assign (comprehension result)
+    what: str  # normalised element expression (variable pushed / marked, recorded expression)
     guard: Formula
     guard_text: str
     in_neighbour_loop: bool
+    elt: ast.AST | None = None  # element expression node
+    nvar: str | None = None  # neighbour variable of the neighbour iteration the event sits in
+    receiver: str = ""
+
+
+@dataclass
+class NeighbourIter:
+    node: ast.AST  # ast.For or a comprehension
+    gen: int | None  # generator index for comprehensions
+    var: str
+    extra: list  # [(expr, polarity)] filters of a filtered neighbour list, already renamed to `var`
+
+
+@dataclass
+class SetOp:
+    kind: str  # add | remove
+    var: str  # set variable
+    what: str  # normalised element
+    node: ast.AST
+    guard: Formula
+
+
+@dataclass
+class SubtreeSite:
+    """One `get_all_submodules_of(graph, x)` call and where its result goes."""
+
+    call: ast.Call
+    arg: str  # x
+    param: str | None  # x is this filter parameter ...
+    collection: str | None  # ... or ranges over this collection parameter
+    implicit_skips: list[str]  # elements removed from the collection before iterating (`P - {s}`)
+    target: str | None  # variable receiving / accumulating the result (None: used inline)
+    assigned: bool  # `target = get_all_submodules_of(..)` (exactly the sub-tree) as opposed to accumulated into target
+    loop: ast.AST | None  # the For / comprehension binding x
+    guard: Formula | None = None
+    extra: list = field(default_factory=list)  # filters of a filtered copy of the collection, renamed to x
 
 
 @dataclass
 class SearchModel:
-    fi: FuncInfo
+    fi: FuncInfo  # normalised inline view of the public search function (fi.base = the function as written)
     direction: str  # succ | pred
     graph: str
     worklist: str
     popped: str
     visited: str | None
-    loop: ast.While
-    neighbour_loop: ast.For
+    loop: ast.AST  # ast.While | ast.For (statement holding the comprehension for comprehension searches)
+    neighbour_loop: ast.AST
     neighbour_var: str
     neighbour_call: ast.Call
     hier_calls: list[ast.Call]
     hier_atom: str | None
     events: list[Event] = field(default_factory=list)
     result_vars: set[str] = field(default_factory=set)
-    submodule_sets: dict[str, str] = field(default_factory=dict)  # var -> param it is the subtree of (direct assignment)
-    accumulated_sets: dict[str, str] = field(default_factory=dict)  # var -> param (set) whose elements' subtrees it accumulates
+    submodule_sets: dict[str, str] = field(default_factory=dict)  # var -> filter parameter it is the sub-tree of
+    accumulated_sets: dict[str, str] = field(default_factory=dict)  # var -> collection parameter whose elements' sub-trees it accumulates
     role: str = ""  # explicit | other | submodules
+    # ---- additions of the generalised model
+    base: FuncInfo | None = None
+    outer_kind: str = "while"  # while | for | comp
+    neighbour_iters: list[NeighbourIter] = field(default_factory=list)
+    visited_sets: list[str] = field(default_factory=list)
+    worklist_sources: list[str] = field(default_factory=list)  # sets / node expressions the worklist is initialised from
+    worklist_inits: list[ast.stmt] = field(default_factory=list)
+    other_expansions: list[ast.Call] = field(default_factory=list)  # neighbour lookups outside the node loop
+    neighbour_calls: list[ast.Call] = field(default_factory=list)  # every spelling of the expansion inside the node loop (neighbour_call is the first)
+    subtree_sites: list[SubtreeSite] = field(default_factory=list)
+    parent_id_sets: dict[str, list[str]] = field(default_factory=dict)  # var -> filter params whose parent-module identifiers it holds
+    set_ops: list[SetOp] = field(default_factory=list)  # add / remove / discard of single nodes on the node sets
+    filter_params: list[str] = field(default_factory=list)  # parameters used as one ModuleFilter
+    collection_params: list[str] = field(default_factory=list)  # parameters used as a collection of ModuleFilters
+    subject_param: str | None = None
+    object_param: str | None = None
+    subst: object = None  # substitution used for the guards (boolean locals, boolean helpers, canonical hierarchy atom)
+
+    def hier(self, nvar: str | None = None) -> Formula:
+        """Canonical atom 'the edge between the current node and the neighbour is a hierarchy edge' (correctly oriented)."""
+        nv = nvar or self.neighbour_var
+        a, b = (self.popped, nv) if self.direction == "succ" else (nv, self.popped)
+        return atom(f"bool({self.graph}.{HIER}({a}, {b}))")
+
+    def guard_of(self, node: ast.AST, extra: list | None = None) -> Formula:
+        return conds_formula(all_conds(self.fi, node) + list(extra or []), self.subst)
 
 
-def _hier_formula(e: ast.expr, graph: str) -> str | None:
-    if isinstance(e, ast.Call) and isinstance(e.func, ast.Attribute) and e.func.attr == HIER and dotted(e.func.value) == graph:
-        return f"bool({norm(e)})"
+# --------------------------------------------------------------------------- view
+
+
+class ViewInfo(FuncInfo):
+    """FuncInfo of a normalised view: same qualname as the function it shows, but a distinct identity for the caches."""
+
+    @property
+    def fq(self) -> str:  # type: ignore[override]
+        return f"{self.module.name}::{self.qualname}~search"
+
+    __hash__ = FuncInfo.__hash__
+    __eq__ = FuncInfo.__eq__
+
+
+def _allow(caller: FuncInfo, callee: FuncInfo) -> bool:
+    """What is substituted into the view: module-level helpers. Methods (graph accessors, filter properties) and the public
+    search functions are the vocabulary of the rules and stay calls."""
+    if callee.cls is not None or callee.outer is not None:
+        return False
+    if callee.module.name == SEARCHES and not callee.name.startswith("_"):
+        return False
+    return True
+
+
+def _ordered_names(fn: ast.AST) -> list[ast.Name]:
+    out: list[ast.Name] = []
+
+    def visit(n: ast.AST) -> None:
+        if isinstance(n, ast.Name):
+            out.append(n)
+        for c in ast.iter_child_nodes(n):
+            visit(c)
+
+    for s in fn.body:
+        visit(s)
+    return out
+
+
+def _blocks(fn: ast.AST):
+    for n in ast.walk(fn):
+        for fld in ("body", "orelse", "finalbody"):
+            blk = getattr(n, fld, None)
+            if isinstance(blk, list) and blk and isinstance(blk[0], ast.stmt):
+                yield blk
+        if isinstance(n, ast.Try):
+            for h in n.handlers:
+                yield h.body
+
+
+def _eliminate_aliases(fn: ast.AST, params: set[str]) -> None:
+    """`x = y` where y is a local that is never used afterwards and x was never used before: y is renamed to x and the statement
+    dropped (the residue of `x = helper(..)` whose helper ended in `return y`)."""
+    for _ in range(50):
+        names = _ordered_names(fn)
+        pos = {id(n): i for i, n in enumerate(names)}
+        done = False
+        for blk in _blocks(fn):
+            for st in blk:
+                tgt = val = None
+                if isinstance(st, ast.Assign) and len(st.targets) == 1:
+                    tgt, val = st.targets[0], st.value
+                elif isinstance(st, ast.AnnAssign) and st.value is not None:
+                    tgt, val = st.target, st.value
+                if not (isinstance(tgt, ast.Name) and isinstance(val, ast.Name)):
+                    continue
+                x, y = tgt.id, val.id
+                if x == y or y in params:
+                    continue
+                if any(n.id == y and pos[id(n)] > pos[id(val)] for n in names):
+                    continue
+                if any(n.id == x and pos[id(n)] < min(pos[id(tgt)], pos[id(val)]) for n in names):
+                    continue
+                if not any(n.id == y and isinstance(n.ctx, ast.Store) for n in names):
+                    continue
+                for n in names:
+                    if n.id == y:
+                        n.id = x
+                for a in ast.walk(fn):
+                    if isinstance(a, ast.ExceptHandler) and a.name == y:
+                        a.name = x
+                blk.remove(st)
+                if not blk:
+                    blk.append(ast.copy_location(ast.Pass(), st))
+                done = True
+                break
+            if done:
+                break
+        if not done:
+            return
+
+
+def _negated(e: ast.expr) -> ast.expr:
+    if isinstance(e, ast.UnaryOp) and isinstance(e.op, ast.Not):
+        return e.operand
+    if isinstance(e, ast.Compare) and len(e.ops) == 1 and isinstance(e.ops[0], (ast.In, ast.NotIn, ast.Is, ast.IsNot, ast.Eq, ast.NotEq)):
+        flip = {ast.In: ast.NotIn, ast.NotIn: ast.In, ast.Is: ast.IsNot, ast.IsNot: ast.Is, ast.Eq: ast.NotEq, ast.NotEq: ast.Eq}[type(e.ops[0])]
+        new = ast.copy_location(ast.Compare(left=e.left, ops=[flip()], comparators=e.comparators), e)
+    else:
+        new = ast.copy_location(ast.UnaryOp(op=ast.Not(), operand=e), e)
+    if hasattr(e, "_src"):
+        new._src = e._src  # type: ignore[attr-defined]
+    return new
+
+
+def _conjuncts(t: ast.expr) -> list[ast.expr]:
+    if isinstance(t, ast.BoolOp) and isinstance(t.op, ast.And):
+        return [c for v in t.values for c in _conjuncts(v)]
+    if isinstance(t, ast.UnaryOp) and isinstance(t.op, ast.Not) and isinstance(t.operand, ast.BoolOp) and isinstance(t.operand.op, ast.Or):
+        return [c for v in t.operand.values for c in _conjuncts(_negated(v))]
+    return [t]
+
+
+def _disjuncts(t: ast.expr) -> list[ast.expr]:
+    if isinstance(t, ast.BoolOp) and isinstance(t.op, ast.Or):
+        return [c for v in t.values for c in _disjuncts(v)]
+    if isinstance(t, ast.UnaryOp) and isinstance(t.op, ast.Not) and isinstance(t.operand, ast.BoolOp) and isinstance(t.operand.op, ast.And):
+        return [c for v in t.operand.values for c in _disjuncts(_negated(v))]
+    return [t]
+
+
+def _split_conditions(stmts: list[ast.stmt]) -> list[ast.stmt]:
+    """`if a and b: S` -> `if a: if b: S`;  `if a or b: <exit>` -> `if a: <exit>` `if b: <exit>` (same evaluation order, same effect).
+
+    The path conditions of core/cfg.py drop a condition as a whole as soon as one name in it is mutated; after the split a
+    mutation of one set (`visited.add(n)`) no longer hides what is known about another (`n not in excluded`)."""
+    from core.cfg import always_exits
+
+    out: list[ast.stmt] = []
+    for st in stmts:
+        for fld in ("body", "orelse", "finalbody"):
+            blk = getattr(st, fld, None)
+            if isinstance(blk, list) and blk and isinstance(blk[0], ast.stmt):
+                setattr(st, fld, _split_conditions(blk))
+        if isinstance(st, ast.Try):
+            for h in st.handlers:
+                h.body = _split_conditions(h.body)
+        if isinstance(st, ast.If) and not st.orelse:
+            conj = _conjuncts(st.test)
+            if len(conj) > 1:
+                inner: list[ast.stmt] = st.body
+                for c in reversed(conj):
+                    node = ast.copy_location(ast.If(test=c, body=inner, orelse=[]), st)
+                    if hasattr(st, "_src"):
+                        node._src = st._src  # type: ignore[attr-defined]
+                    inner = [node]
+                out.append(inner[0])
+                continue
+            disj = _disjuncts(st.test)
+            if len(disj) > 1 and always_exits(st.body) and all(isinstance(x, (ast.Continue, ast.Break, ast.Return, ast.Raise, ast.Pass)) for x in st.body):
+                for k, d in enumerate(disj):
+                    node = ast.copy_location(ast.If(test=d, body=st.body if k == 0 else _clone(st.body), orelse=[]), st)
+                    if hasattr(st, "_src"):
+                        node._src = st._src  # type: ignore[attr-defined]
+                    out.append(node)
+                continue
+        out.append(st)
+    return out
+
+
+def _is_none_test(t: ast.expr) -> str | None:
+    """x for `x is None`."""
+    if isinstance(t, ast.Compare) and len(t.ops) == 1 and isinstance(t.ops[0], ast.Is) and isinstance(t.left, ast.Name) and isinstance(t.comparators[0], ast.Constant) and t.comparators[0].value is None:
+        return t.left.id
+    return None
+
+
+def _thread_none_exits(stmts: list[ast.stmt]) -> list[ast.stmt]:
+    """`if c: x = None else: ..; x = e` directly followed by `if x is None: <exit>`: the branch that sets None takes the exit itself
+    (the shape a substituted `x = helper(..)` leaves when the helper returns None for "nothing to do")."""
+    for st in stmts:
+        for fld in ("body", "orelse", "finalbody"):
+            blk = getattr(st, fld, None)
+            if isinstance(blk, list) and blk and isinstance(blk[0], ast.stmt):
+                setattr(st, fld, _thread_none_exits(blk))
+        if isinstance(st, ast.Try):
+            for h in st.handlers:
+                h.body = _thread_none_exits(h.body)
+    out = list(stmts)
+    i = 0
+    while i + 1 < len(out):
+        a, b = out[i], out[i + 1]
+        x = _is_none_test(b.test) if isinstance(b, ast.If) and not b.orelse else None
+        pure_exit = x is not None and all(isinstance(e, (ast.Continue, ast.Break)) or (isinstance(e, ast.Return) and (e.value is None or isinstance(e.value, ast.Constant))) for e in b.body)
+        if isinstance(a, ast.If) and a.orelse and pure_exit:
+            for fld in ("body", "orelse"):
+                blk = getattr(a, fld)
+                last = blk[-1] if blk else None
+                if isinstance(last, ast.Assign) and len(last.targets) == 1 and isinstance(last.targets[0], ast.Name) and last.targets[0].id == x and isinstance(last.value, ast.Constant) and last.value.value is None:
+                    setattr(a, fld, blk[:-1] + _clone(b.body))
+        i += 1
+    return out
+
+
+def _positionalise(fn: ast.AST, repo: Repo) -> None:
+    """Keyword arguments of the vocabulary calls (graph accessors, hierarchy test, public search functions) become positional, so
+    that `graph.direct_successor_nodes(node=n)` and `get_all_submodules_of(graph=g, module=m)` read like the positional form."""
+    sigs: dict[str, list[str]] = {}
+    for ci in repo.classes.values():
+        if ci.name == "AbstractGraph":
+            for name in (SUCC, PRED, HIER):
+                m = ci.methods.get(name)
+                if m is not None:
+                    sigs[name] = m.param_names[1:]
+    mod = repo.modules.get(SEARCHES)
+    pub = {n: f.param_names for n, f in mod.functions.items() if not n.startswith("_")} if mod is not None else {}
+    for c in ast.walk(fn):
+        if not (isinstance(c, ast.Call) and c.keywords and all(k.arg for k in c.keywords) and not any(isinstance(a, ast.Starred) for a in c.args)):
+            continue
+        names = sigs.get(c.func.attr) if isinstance(c.func, ast.Attribute) else pub.get(c.func.id) if isinstance(c.func, ast.Name) else None
+        if not names:
+            continue
+        given = {k.arg: k.value for k in c.keywords}
+        rest = names[len(c.args):]
+        if set(given) != set(rest[: len(given)]):
+            continue
+        c.args = list(c.args) + [given[n] for n in rest[: len(given)]]
+        c.keywords = []
+
+
+def _helper_of(repo: Repo, view: FuncInfo, call: ast.Call) -> FuncInfo | None:
+    """The module-level helper a call invokes, if the view may look into it."""
+    if not isinstance(call.func, ast.Name):
+        return None
+    try:
+        cs, how = types_of(repo).callees(view, call, byname_fallback=False)
+    except Exception:  # noqa: BLE001
+        return None
+    cs = [c for c in cs if not c.is_abstract]
+    if len(cs) != 1 or how != "repo" or isinstance(cs[0].node, ast.Lambda) or not _allow(view, cs[0]):
+        return None
+    a = cs[0].node.args
+    if a.vararg or a.kwarg:
+        return None
+    return cs[0]
+
+
+def _is_generator(f: FuncInfo) -> bool:
+    return any(isinstance(n, (ast.Yield, ast.YieldFrom)) for n in own_nodes(f.node))
+
+
+def _header_exprs(st: ast.stmt) -> list[tuple[str, ast.AST]]:
+    if isinstance(st, (ast.Expr, ast.Return)) and st.value is not None:
+        return [("value", st.value)]
+    if isinstance(st, (ast.Assign, ast.AugAssign)):
+        return [("value", st.value)]
+    if isinstance(st, ast.AnnAssign) and st.value is not None:
+        return [("value", st.value)]
+    if isinstance(st, (ast.For, ast.AsyncFor)):
+        return [("iter", st.iter)]
+    return []
+
+
+def _hoist_helper_calls(repo: Repo, view: FuncInfo) -> bool:
+    """`x.extend(helper(a))` / `for v in helper(a):` / `return list(helper(a))` -> `t = helper(a)` in front of the statement, so that
+    the statement-level inliner can substitute the helper's body (it only handles calls that are a whole statement value)."""
+    changed = False
+    taken = {n.id for n in ast.walk(view.node) if isinstance(n, ast.Name)}
+    counter = [0]
+
+    def fresh() -> str:
+        while True:
+            counter[0] += 1
+            name = f"hoisted{counter[0]}"
+            if name not in taken:
+                taken.add(name)
+                return name
+
+    def candidate(st: ast.stmt):
+        for fld, root in _header_exprs(st):
+            todo = [(root, None, None)]
+            while todo:
+                n, par, where_ = todo.pop(0)
+                if isinstance(n, (ast.Lambda, *_COMPS, ast.DictComp, ast.IfExp, ast.BoolOp)):
+                    continue
+                if isinstance(n, ast.Call) and n is not root or (isinstance(n, ast.Call) and fld == "iter"):
+                    f = _helper_of(repo, view, n)
+                    if f is not None and not _is_generator(f):
+                        return fld, n, par, where_
+                for name, val in ast.iter_fields(n):
+                    if isinstance(val, ast.AST):
+                        todo.append((val, n, (name, None)))
+                    elif isinstance(val, list):
+                        for i, x in enumerate(val):
+                            if isinstance(x, ast.AST):
+                                todo.append((x, n, (name, i)))
+        return None
+
+    def block(stmts: list[ast.stmt]) -> list[ast.stmt]:
+        nonlocal changed
+        out: list[ast.stmt] = []
+        for st in stmts:
+            for fld in ("body", "orelse", "finalbody"):
+                blk = getattr(st, fld, None)
+                if isinstance(blk, list) and blk and isinstance(blk[0], ast.stmt):
+                    setattr(st, fld, block(blk))
+            if isinstance(st, ast.Try):
+                for h in st.handlers:
+                    h.body = block(h.body)
+            for _ in range(8):
+                got = candidate(st)
+                if got is None:
+                    break
+                fld, call, par, where_ = got
+                tmp = fresh()
+                assign = ast.copy_location(ast.Assign(targets=[ast.Name(id=tmp, ctx=ast.Store())], value=call), st)
+                ref = ast.copy_location(ast.Name(id=tmp, ctx=ast.Load()), call)
+                if par is None:
+                    setattr(st, fld, ref)
+                elif where_[1] is None:
+                    setattr(par, where_[0], ref)
+                else:
+                    getattr(par, where_[0])[where_[1]] = ref
+                out.append(assign)
+                changed = True
+            out.append(st)
+        return out
+
+    view.node.body = block(view.node.body)
+    return changed
+
+
+def _inline_generator_loops(repo: Repo, view: FuncInfo) -> bool:
+    """`for v in gen(args): BODY` where `gen` is a small generator helper whose `yield e` statements end their loop iteration:
+    the helper's loops with `v = e; BODY` in place of each yield."""
+    changed = False
+    taken = {n.id for n in ast.walk(view.node) if isinstance(n, ast.Name)}
+
+    def tail_yields(f: FuncInfo) -> bool:
+        ok = True
+
+        def blockv(stmts: list[ast.stmt], tail: bool) -> None:
+            nonlocal ok
+            for i, st in enumerate(stmts):
+                last = tail and i == len(stmts) - 1
+                if isinstance(st, ast.Expr) and isinstance(st.value, ast.Yield):
+                    if not last or st.value.value is None:
+                        ok = False
+                elif isinstance(st, ast.If):
+                    blockv(st.body, last)
+                    blockv(st.orelse, last)
+                elif isinstance(st, (ast.For, ast.While)):
+                    blockv(st.body, True)
+                    if st.orelse:
+                        ok = False
+                elif any(isinstance(n, (ast.Yield, ast.YieldFrom)) for n in ast.walk(st)):
+                    ok = False
+                if isinstance(st, ast.Return) and st.value is not None:
+                    ok = False
+
+        # yields outside any loop of the helper are only in tail position of the helper itself
+        blockv([s_ for s_ in f.node.body], True)
+        return ok and not any(isinstance(n, (ast.FunctionDef, ast.AsyncFunctionDef, ast.ClassDef, ast.Global, ast.Nonlocal, ast.Try, ast.With)) for n in own_nodes(f.node))
+
+    def expand(st: ast.For, f: FuncInfo) -> list[ast.stmt] | None:
+        call = st.iter
+        if st.orelse or call.keywords and any(k.arg is None for k in call.keywords) or any(isinstance(a, ast.Starred) for a in call.args):
+            return None
+        # break / continue of the loop itself cannot be expressed once the loop is the helper's
+        def escapes(stmts: list[ast.stmt]) -> bool:
+            for x in stmts:
+                if isinstance(x, ast.Break):
+                    return True
+                if isinstance(x, (ast.For, ast.While, ast.FunctionDef, ast.AsyncFunctionDef)):
+                    continue
+                for fld in ("body", "orelse", "finalbody"):
+                    if escapes(getattr(x, fld, []) or []):
+                        return True
+                if isinstance(x, ast.Try) and any(escapes(h.body) for h in x.handlers):
+                    return True
+            return False
+
+        def continues(stmts: list[ast.stmt]) -> bool:
+            for x in stmts:
+                if isinstance(x, ast.Continue):
+                    return True
+                if isinstance(x, (ast.For, ast.While, ast.FunctionDef, ast.AsyncFunctionDef)):
+                    continue
+                for fld in ("body", "orelse", "finalbody"):
+                    if continues(getattr(x, fld, []) or []):
+                        return True
+                if isinstance(x, ast.Try) and any(continues(h.body) for h in x.handlers):
+                    return True
+            return False
+
+        def yield_outside_loops(stmts: list[ast.stmt]) -> bool:
+            for x in stmts:
+                if isinstance(x, ast.Expr) and isinstance(x.value, ast.Yield):
+                    return True
+                if isinstance(x, ast.If) and (yield_outside_loops(x.body) or yield_outside_loops(x.orelse)):
+                    return True
+            return False
+
+        if escapes(st.body) or not tail_yields(f) or (continues(st.body) and yield_outside_loops(f.node.body)):
+            return None
+        a = f.node.args
+        pos = [p_.arg for p_ in [*a.posonlyargs, *a.args]]
+        bind: dict[str, ast.expr] = dict(zip(pos, call.args))
+        for k in call.keywords:
+            bind[k.arg] = k.value
+        for p_, d in zip(pos[len(pos) - len(a.defaults):], a.defaults):
+            bind.setdefault(p_, d)
+        if any(p_ not in bind for p_ in f.param_names):
+            return None
+        body = [_clone_src(s_, f) for s_ in f.node.body if not (isinstance(s_, ast.Expr) and isinstance(s_.value, ast.Constant))]
+        stored = {n.id for s_ in body for n in ast.walk(s_) if isinstance(n, ast.Name) and isinstance(n.ctx, ast.Store)}
+        prefix: list[ast.stmt] = []
+        ren: dict[str, str] = {}
+        for p_ in f.param_names:
+            val = bind[p_]
+            if isinstance(val, ast.Name) and p_ not in stored:
+                ren[p_] = val.id
+            else:
+                new = p_ if p_ not in taken else f"{p_}__{f.name.strip('_')}"
+                taken.add(new)
+                ren[p_] = new
+                prefix.append(ast.copy_location(ast.Assign(targets=[ast.Name(id=new, ctx=ast.Store())], value=val), st))
+        for l_ in sorted(stored - set(f.param_names)):
+            if l_ in taken:
+                new = f"{l_}__{f.name.strip('_')}"
+                taken.add(new)
+                ren[l_] = new
+            else:
+                taken.add(l_)
+        for s_ in body:
+            for n in ast.walk(s_):
+                if isinstance(n, ast.Name) and n.id in ren:
+                    n.id = ren[n.id]
+
+        def subst(stmts: list[ast.stmt]) -> list[ast.stmt]:
+            out: list[ast.stmt] = []
+            for x in stmts:
+                if isinstance(x, ast.Expr) and isinstance(x.value, ast.Yield):
+                    out.append(ast.copy_location(ast.Assign(targets=[_clone(st.target)], value=x.value.value), x))
+                    out += _clone(st.body)
+                    continue
+                if isinstance(x, ast.Return):
+                    continue  # bare return in tail position
+                for fld in ("body", "orelse"):
+                    blk = getattr(x, fld, None)
+                    if isinstance(blk, list) and blk and isinstance(blk[0], ast.stmt):
+                        setattr(x, fld, subst(blk) or [ast.copy_location(ast.Pass(), x)])
+                out.append(x)
+            return out
+
+        return prefix + subst(body)
+
+    def block(stmts: list[ast.stmt]) -> list[ast.stmt]:
+        nonlocal changed
+        out: list[ast.stmt] = []
+        for st in stmts:
+            for fld in ("body", "orelse", "finalbody"):
+                blk = getattr(st, fld, None)
+                if isinstance(blk, list) and blk and isinstance(blk[0], ast.stmt):
+                    setattr(st, fld, block(blk))
+            if isinstance(st, ast.Try):
+                for h in st.handlers:
+                    h.body = block(h.body)
+            if isinstance(st, ast.For) and isinstance(st.iter, ast.Call):
+                f = _helper_of(repo, view, st.iter)
+                if f is not None and _is_generator(f):
+                    got = expand(st, f)
+                    if got is not None:
+                        out += got
+                        changed = True
+                        view.__dict__.setdefault("gen_inlined", []).append(f.fq)
+                        continue
+            out.append(st)
+        return out
+
+    view.node.body = block(view.node.body)
+    return changed
+
+
+def _clone_src(e, ctx: FuncInfo):
+    """Copy of a helper's statement for substitution into a view: every node remembers where it came from."""
+    if isinstance(e, list):
+        return [_clone_src(x, ctx) for x in e]
+    if not isinstance(e, ast.AST):
+        return e
+    new = type(e)()
+    for f in e._fields:
+        if hasattr(e, f):
+            setattr(new, f, _clone_src(getattr(e, f), ctx))
+    for a in ("lineno", "col_offset", "end_lineno", "end_col_offset"):
+        if hasattr(e, a):
+            setattr(new, a, getattr(e, a))
+    new._src = getattr(e, "_src", (ctx, e))  # type: ignore[attr-defined]
+    return new
+
+
+def _unqualified(repo: Repo, fi: FuncInfo) -> FuncInfo:
+    """`utils.helper(x)` through an imported repo *module* -> `helper(x)` on a copy of the function, each new name remembering the
+    module it lives in (core/types.py treats a repo module object as a library reference, so the inliner would not look into
+    helpers called that way)."""
+    if isinstance(fi.node, ast.Lambda):
+        return fi
+    node = _clone(fi.node)
+    hit = False
+    for c in ast.walk(node):
+        if isinstance(c, ast.Call) and isinstance(c.func, ast.Attribute) and isinstance(c.func.value, (ast.Name, ast.Attribute)):
+            base = repo.resolve_name(fi.module, c.func.value)
+            om = repo.modules.get(base) if base else None
+            f = om.functions.get(c.func.attr) if om is not None else None
+            if f is not None and f.cls is None:
+                name = ast.copy_location(ast.Name(id=c.func.attr, ctx=ast.Load()), c.func)
+                name._src = (f, ast.Name(id=c.func.attr, ctx=ast.Load()))  # type: ignore[attr-defined]
+                c.func = name
+                hit = True
+    if not hit:
+        return fi
+    ast.fix_missing_locations(node)
+    set_parents(node)
+    pre = FuncInfo(name=fi.name, qualname=fi.qualname + "~unq", node=node, module=fi.module, cls=fi.cls, decorators=list(fi.decorators), outer=fi.outer)
+    node._func = pre  # type: ignore[attr-defined]
+    return pre
+
+
+def search_view(repo: Repo, fi: FuncInfo) -> FuncInfo:
+    cache = repo.__dict__.setdefault("_search_views", {})
+    if fi.fq in cache:
+        return cache[fi.fq]
+    v0 = Inliner(repo, types_of(repo), _allow).view(_unqualified(repo, fi))
+    inlined = list(getattr(v0, "inlined", []))
+    for _ in range(3):
+        # helper calls the inliner could not reach (nested in an expression, generator helpers in a for header): make them
+        # reachable and substitute once more
+        changed = _hoist_helper_calls(repo, v0)
+        changed = _inline_generator_loops(repo, v0) or changed
+        inlined += v0.__dict__.get("gen_inlined", [])
+        if not changed:
+            break
+        ast.fix_missing_locations(v0.node)
+        set_parents(v0.node)
+        v1 = Inliner(repo, types_of(repo), _allow).view(v0)
+        inlined += list(getattr(v1, "inlined", []))
+        v0 = v1
+    node = v0.node
+    _positionalise(node, repo)
+    node.body = _thread_none_exits(node.body)
+    _eliminate_aliases(node, set(fi.param_names))
+    node.body = _split_conditions(node.body)
+    ast.fix_missing_locations(node)
+    set_parents(node)
+    v = ViewInfo(name=fi.name, qualname=fi.qualname, node=node, module=fi.module, cls=fi.cls, decorators=list(fi.decorators), outer=fi.outer)
+    v.shown = fi.qualname  # type: ignore[attr-defined]
+    v.origin = getattr(v0, "origin", {})  # type: ignore[attr-defined]
+    v.inlined = inlined  # type: ignore[attr-defined]
+    v.base = fi  # type: ignore[attr-defined]
+    node._func = v  # type: ignore[attr-defined]
+    cache[fi.fq] = v
+    return v
+
+
+# --------------------------------------------------------------------------- small syntactic helpers
+
+
+def strip(e: ast.AST) -> ast.AST:
+    """Removes order / container conversions that do not change which nodes are meant: list(x), sorted(x), reversed(x), [*x], x.copy(), x[:]."""
+    while True:
+        if isinstance(e, ast.Call) and isinstance(e.func, ast.Name) and e.func.id in _WRAPPERS and len(e.args) == 1 and not isinstance(e.args[0], ast.Starred):
+            e = e.args[0]
+        elif isinstance(e, (ast.List, ast.Tuple, ast.Set)) and len(e.elts) == 1 and isinstance(e.elts[0], ast.Starred):
+            e = e.elts[0].value
+        elif isinstance(e, ast.Call) and isinstance(e.func, ast.Attribute) and e.func.attr == "copy" and not e.args:
+            e = e.func.value
+        elif isinstance(e, ast.Subscript) and isinstance(e.slice, ast.Slice) and e.slice.lower is None and e.slice.upper is None:
+            e = e.value
+        elif isinstance(e, ast.NamedExpr):
+            e = e.value
+        else:
+            return e
+
+
+def _chain(node: ast.AST) -> list[ast.AST]:
+    return [node, *ancestors(node)]
+
+
+def _inside_body(node: ast.AST, loop: ast.AST) -> bool:
+    """`node` is executed as part of an iteration of the statement loop `loop` (in its body, not in its header)."""
+    ch = _chain(node)
+    for i, a in enumerate(ch):
+        if a is loop:
+            return i > 0 and any(ch[i - 1] is s for s in loop.body)
+    return False
+
+
+def _inside_gen(node: ast.AST, comp: ast.AST, j: int) -> bool:
+    """`node` is evaluated once per element of generator j of the comprehension (element, later generators, filters from j on)."""
+    ch = _chain(node)
+    for i, a in enumerate(ch):
+        if a is comp:
+            if i == 0:
+                return False
+            c = ch[i - 1]
+            if isinstance(c, ast.comprehension):
+                k = next(k for k, g in enumerate(comp.generators) if g is c)
+                if k > j:
+                    return True
+                return k == j and i > 1 and any(ch[i - 2] is f for f in c.ifs)
+            return True  # elt / key / value
+    return False
+
+
+def _comp_conditions(node: ast.AST) -> list:
+    """Filters of a comprehension that hold where `node` is evaluated *inside a generator clause* (core/cfg.expr_conditions only
+    covers the element): in the iterable of generator k the filters of the generators before k, in a filter of generator k
+    additionally the earlier filters of k."""
+    out: list = []
+    ch = _chain(node)
+    for i, a in enumerate(ch):
+        if isinstance(a, ast.stmt):
+            break
+        if isinstance(a, ast.comprehension) and i + 1 < len(ch) and isinstance(ch[i + 1], (*_COMPS, ast.DictComp)):
+            comp = ch[i + 1]
+            k = next(k for k, g in enumerate(comp.generators) if g is a)
+            for g in comp.generators[:k]:
+                out += [(c, True) for c in g.ifs]
+            if i > 0:
+                for c in a.ifs:
+                    if c is ch[i - 1]:
+                        break
+                    out.append((c, True))
+    return out
+
+
+def all_conds(v: FuncInfo, node: ast.AST) -> list:
+    return list(conds(v, node)) + _comp_conditions(node)
+
+
+def _single_assignments(fn: ast.AST) -> dict[str, ast.expr]:
+    """name -> value for locals bound exactly once, by a plain or annotated assignment."""
+    counts: dict[str, int] = {}
+    vals: dict[str, ast.expr] = {}
+    for n in ast.walk(fn):
+        if isinstance(n, ast.Name) and isinstance(n.ctx, (ast.Store, ast.Del)):
+            counts[n.id] = counts.get(n.id, 0) + 1
+        if isinstance(n, ast.Assign) and len(n.targets) == 1 and isinstance(n.targets[0], ast.Name):
+            vals[n.targets[0].id] = n.value
+        elif isinstance(n, ast.AnnAssign) and isinstance(n.target, ast.Name) and n.value is not None:
+            vals[n.target.id] = n.value
+        elif isinstance(n, ast.AugAssign) and isinstance(n.target, ast.Name):
+            counts[n.target.id] = counts.get(n.target.id, 0) + 1
+    return {k: v for k, v in vals.items() if counts.get(k) == 1}
+
+
+class _Ren(ast.NodeTransformer):
+    def __init__(self, old: str, new: str) -> None:
+        self.old, self.new = old, new
+
+    def visit_Name(self, n: ast.Name):  # noqa: N802
+        if n.id == self.old:
+            return ast.copy_location(ast.Name(id=self.new, ctx=n.ctx), n)
+        return n
+
+
+def _clone(e):
+    """Copy of a sub-tree of a view (keeps the `_src` back references, not the parent links)."""
+    if isinstance(e, list):
+        return [_clone(x) for x in e]
+    if not isinstance(e, ast.AST):
+        return e
+    new = type(e)()
+    for f in e._fields:
+        if hasattr(e, f):
+            setattr(new, f, _clone(getattr(e, f)))
+    for a in ("lineno", "col_offset", "end_lineno", "end_col_offset"):
+        if hasattr(e, a):
+            setattr(new, a, getattr(e, a))
+    if hasattr(e, "_src"):
+        new._src = e._src  # type: ignore[attr-defined]
+    return new
+
+
+def _renamed(e: ast.expr, old: str, new: str) -> ast.expr:
+    if old == new:
+        return e
+    return _Ren(old, new).visit(_clone(e))
+
+
+def _hier_params(repo: Repo) -> list[str]:
+    for ci in repo.classes.values():
+        if ci.name == "AbstractGraph":
+            m = ci.methods.get(HIER)
+            if m is not None:
+                return m.param_names[1:]
+    return []
+
+
+def make_subst(repo: Repo, v: FuncInfo):
+    """Substitution for guard formulas of a view: single-assignment boolean locals stand for their definition, private boolean
+    helpers for their body, and a hierarchy test written with keyword arguments for the positional one."""
+    single = _single_assignments(v.node)
+    params = set(v.param_names)
+    helper = bool_inliner(repo).subst(v, 0, None)
+    hp = _hier_params(repo)
+
+    mutated_at = _mutation_positions(v.node)
+
+    def member(left: str, se: ast.AST, depth: int = 0, top: bool = True) -> Formula | None:
+        """Formula of `left in <set expression>` for set algebra over node sets (`A | B`, `A - B`, `A & B`, .union / .difference /
+        .intersection, `{*A, *B}`), also through a local bound once to such an expression whose operands are complete by then.
+        None when the expression is a plain set (the membership stays an atom)."""
+        se = strip(se)
+        if isinstance(se, ast.Name):
+            if se.id in single and se.id not in params and depth < 4:
+                val = strip(single[se.id])
+                if isinstance(val, (ast.BinOp, ast.Set)) or (isinstance(val, ast.Call) and isinstance(val.func, ast.Attribute) and val.func.attr in ("union", "difference", "intersection")):
+                    here = mutated_at["@pos"].get(id(single[se.id]), -1)
+                    operands = {x.id for x in ast.walk(val) if isinstance(x, ast.Name)}
+                    if not any(pos > here for x in operands for pos in mutated_at.get(x, [])):
+                        got = member(left, val, depth + 1, True)
+                        if got is not None:
+                            return got
+            return None if top else atom(f"{left} in {se.id}")
+        parts: list[tuple[str, ast.AST]] = []
+        if isinstance(se, ast.BinOp) and isinstance(se.op, (ast.BitOr, ast.Sub, ast.BitAnd)):
+            op = {ast.BitOr: "or", ast.Sub: "sub", ast.BitAnd: "and"}[type(se.op)]
+            parts = [("first", se.left), (op, se.right)]
+        elif isinstance(se, ast.Call) and isinstance(se.func, ast.Attribute) and se.func.attr in ("union", "difference", "intersection") and se.args and not se.keywords and not any(isinstance(a, ast.Starred) for a in se.args):
+            op = {"union": "or", "difference": "sub", "intersection": "and"}[se.func.attr]
+            parts = [("first", se.func.value), *[(op, a) for a in se.args]]
+        elif isinstance(se, ast.Set) and se.elts and all(isinstance(x, ast.Starred) for x in se.elts):
+            parts = [("first" if i == 0 else "or", x.value) for i, x in enumerate(se.elts)]
+        else:
+            return None
+        f: Formula | None = None
+        for op, x in parts:
+            g = member(left, x, depth + 1, False)
+            if g is None:
+                return None
+            f = g if op == "first" else f_or([f, g]) if op == "or" else f_and([f, f_not(g)]) if op == "sub" else f_and([f, g])
+        return f
+
+    def subst(e: ast.expr):
+        if isinstance(e, ast.Compare) and len(e.ops) == 1 and isinstance(e.ops[0], (ast.In, ast.NotIn)):
+            f = member(norm(e.left), e.comparators[0])
+            if f is not None:
+                return f if isinstance(e.ops[0], ast.In) else f_not(f)
+        if isinstance(e, ast.Name) and e.id in single and e.id not in params:
+            val = single[e.id]
+            if isinstance(val, (ast.Call, ast.Compare, ast.BoolOp, ast.UnaryOp)) and not _is_collection_expr(val):
+                return to_formula(val, subst)
+            if isinstance(val, ast.Attribute) and val.attr == PARENT_FLAG:
+                return to_formula(val, subst)  # is_parent = f.identifier_is_parent_module
+        if isinstance(e, ast.Call) and isinstance(e.func, ast.Attribute) and e.func.attr == HIER and e.keywords and len(hp) == 2:
+            args: dict[str, ast.expr] = dict(zip(hp, e.args))
+            for k in e.keywords:
+                if k.arg:
+                    args[k.arg] = k.value
+            if all(p in args for p in hp):
+                return atom(f"bool({norm(e.func)}({norm(args[hp[0]])}, {norm(args[hp[1]])}))")
+        return helper(e)
+
+    return subst
+
+
+def _mutation_positions(fn: ast.AST) -> dict:
+    """name -> positions (pre-order index) of statements mutating / rebinding it; "@pos": id(node) -> position."""
+    pos: dict[int, int] = {}
+    out: dict = {"@pos": pos}
+    for i, n in enumerate(_preorder(fn)):
+        pos[id(n)] = i
+    for n in _preorder(fn):
+        name = None
+        if isinstance(n, ast.Call) and isinstance(n.func, ast.Attribute) and isinstance(n.func.value, ast.Name) and n.func.attr in ("add", "update", "remove", "discard", "clear", "pop", "difference_update", "intersection_update", "symmetric_difference_update", "append", "extend", "insert"):
+            name = n.func.value.id
+        elif isinstance(n, ast.AugAssign) and isinstance(n.target, ast.Name):
+            name = n.target.id
+        elif isinstance(n, ast.Name) and isinstance(n.ctx, (ast.Store, ast.Del)):
+            name = n.id
+        if name is not None:
+            out.setdefault(name, []).append(pos[id(n)])
+    return out
+
+
+def _preorder(fn: ast.AST):
+    stack = [fn]
+    while stack:
+        n = stack.pop()
+        yield n
+        stack.extend(reversed(list(ast.iter_child_nodes(n))))
+
+
+def _is_collection_expr(e: ast.expr) -> bool:
+    """Calls that build / return collections must not be read as boolean definitions of a local."""
+    if isinstance(e, ast.Call):
+        if isinstance(e.func, ast.Name) and e.func.id in (_WRAPPERS | {SUBMODULES, "dict", "deque"}):
+            return True
+        if isinstance(e.func, ast.Attribute) and e.func.attr in (SUCC, PRED, "pop", "popleft", "copy", "union", "difference", "intersection"):
+            return True
+    return False
+
+
+# --------------------------------------------------------------------------- construction
+
+
+def _expansions(fn: ast.AST) -> list[ast.Call]:
+    return [c for c in ast.walk(fn) if isinstance(c, ast.Call) and isinstance(c.func, ast.Attribute) and c.func.attr in (SUCC, PRED)]
+
+
+def _pop_target(loop: ast.While, x: str) -> str | None:
+    """Worklist W such that the loop body binds x by `x = W.pop(..)` / `W.popleft()`."""
+    for n in ast.walk(loop):
+        val = None
+        if isinstance(n, ast.Assign) and len(n.targets) == 1 and isinstance(n.targets[0], ast.Name) and n.targets[0].id == x:
+            val = n.value
+        elif isinstance(n, ast.AnnAssign) and isinstance(n.target, ast.Name) and n.target.id == x:
+            val = n.value
+        elif isinstance(n, ast.NamedExpr) and n.target.id == x:
+            val = n.value
+        if val is not None and isinstance(val, ast.Call) and isinstance(val.func, ast.Attribute) and val.func.attr in ("pop", "popleft") and isinstance(val.func.value, ast.Name):
+            return val.func.value.id
+    return None
+
+
+def _binder(e: ast.Call):
+    """The iteration that binds the expanded node: ("while", loop, W) | ("for", loop, iter) | ("comp", comp, j, iter) | None."""
+    if not (e.args and isinstance(e.args[0], ast.Name)):
+        return None
+    x = e.args[0].id
+    for a in ancestors(e):
+        if isinstance(a, (ast.For, ast.AsyncFor)) and isinstance(a.target, ast.Name) and a.target.id == x and _inside_body(e, a):
+            return ("for", a, a.iter)
+        if isinstance(a, ast.While) and _inside_body(e, a):
+            w = _pop_target(a, x)
+            if w is not None:
+                return ("while", a, w)
+        if isinstance(a, (*_COMPS, ast.DictComp)):
+            for j, g in enumerate(a.generators):
+                if isinstance(g.target, ast.Name) and g.target.id == x and _inside_gen(e, a, j):
+                    return ("comp", a, j, g.iter)
+    return None
+
+
+def _iter_elements(e: ast.expr, single: dict[str, ast.expr]) -> list[tuple[ast.AST, ast.AST | None]]:
+    """Elements an iterable expression contributes: [(element expression, comprehension it is the element of | None)]."""
+    e = strip(e)
+    if isinstance(e, _COMPS):
+        return [(e.elt, e)]
+    if isinstance(e, (ast.List, ast.Tuple, ast.Set)):
+        out: list[tuple[ast.AST, ast.AST | None]] = []
+        for x in e.elts:
+            if isinstance(x, ast.Starred):
+                out += _iter_elements(x.value, single)
+            else:
+                out.append((x, None))
+        return out
+    if isinstance(e, ast.Name) and e.id in single and isinstance(strip(single[e.id]), _COMPS):
+        c = strip(single[e.id])
+        return [(c.elt, c)]
+    if isinstance(e, ast.BinOp) and isinstance(e.op, (ast.Add, ast.BitOr)):
+        return _iter_elements(e.left, single) + _iter_elements(e.right, single)
+    return [(e, None)]
+
+
+@dataclass
+class _Site:
+    receiver: str
+    node: ast.AST  # Call | AugAssign | Assign | AnnAssign | Return
+    elements: list[tuple[ast.AST, ast.AST | None]]
+    method: str
+
+
+def _mutation_sites(fn: ast.AST, single: dict[str, ast.expr], result_vars: set[str]) -> list[_Site]:
+    out: list[_Site] = []
+    for n in ast.walk(fn):
+        if isinstance(n, ast.Call) and isinstance(n.func, ast.Attribute) and n.func.attr in _ADDERS and dotted(n.func.value):
+            m = n.func.attr
+            if m in ("append", "add", "appendleft") and len(n.args) == 1:
+                out.append(_Site(dotted(n.func.value), n, [(n.args[0], None)], m))
+            elif m == "insert" and len(n.args) == 2:
+                out.append(_Site(dotted(n.func.value), n, [(n.args[1], None)], m))
+            elif m in ("extend", "update", "extendleft") and n.args:
+                els: list = []
+                for a in n.args:
+                    els += _iter_elements(a, single)
+                out.append(_Site(dotted(n.func.value), n, els, m))
+        elif isinstance(n, ast.AugAssign) and isinstance(n.op, (ast.Add, ast.BitOr)) and dotted(n.target):
+            out.append(_Site(dotted(n.target), n, _iter_elements(n.value, single), "+="))
+        elif isinstance(n, (ast.Assign, ast.AnnAssign)) and n.value is not None:
+            tgt = n.targets[0] if isinstance(n, ast.Assign) and len(n.targets) == 1 else getattr(n, "target", None)
+            if isinstance(tgt, ast.Name):
+                v = strip(n.value)
+                if isinstance(v, _COMPS) and tgt.id in result_vars:
+                    out.append(_Site(tgt.id, n, [(v.elt, v)], "="))
+                elif isinstance(v, ast.BinOp) and isinstance(v.op, (ast.Add, ast.BitOr)) and isinstance(strip(v.left), ast.Name) and strip(v.left).id == tgt.id:
+                    out.append(_Site(tgt.id, n, _iter_elements(v.right, single), "+="))
+        elif isinstance(n, ast.Return) and n.value is not None:
+            v = strip(n.value)
+            if isinstance(v, _COMPS):
+                out.append(_Site("<return>", n, [(v.elt, v)], "return"))
+    return out
+
+
+def _node_expr_text(e: ast.AST, single: dict[str, ast.expr]) -> str:
+    """Canonical text of a node expression: locals bound once to `p.identifier` are replaced by it."""
+    e = strip(e)
+    seen = 0
+    while isinstance(e, ast.Name) and e.id in single and seen < 5:
+        v = strip(single[e.id])
+        if isinstance(v, (ast.Attribute, ast.Name)) or (isinstance(v, ast.Call) and isinstance(v.func, ast.Name) and v.func.id == "get_node"):
+            e = v
+            seen += 1
+        else:
+            break
+    if isinstance(e, ast.Call) and isinstance(e.func, ast.Name) and e.func.id == "get_node" and len(e.args) == 1:
+        return f"{norm(e.args[0])}.{NODE_ATTR}"
+    return norm(e)
+
+
+def _worklist_sources(fn: ast.AST, worklist_expr: ast.AST, outer: ast.AST, single: dict[str, ast.expr]) -> tuple[list[str], list[ast.stmt]]:
+    """Names of the sets / node expressions a worklist is initialised from, and the initialising statements."""
+
+    def sources_of(e: ast.AST) -> list[str]:
+        e = strip(e)
+        if isinstance(e, (ast.List, ast.Tuple, ast.Set)):
+            out: list[str] = []
+            for x in e.elts:
+                out += sources_of(x.value) if isinstance(x, ast.Starred) else [_node_expr_text(x, single)]
+            return out
+        if isinstance(e, ast.Call) and isinstance(e.func, ast.Name) and e.func.id == "deque" and e.args:
+            return sources_of(e.args[0])
+        return [norm(e)]
+
+    base = strip(worklist_expr)
+    if not isinstance(base, ast.Name):
+        return sources_of(base), []
+    inits: list[ast.stmt] = []
+    srcs: list[str] = []
+    for n in ast.walk(fn):
+        val = None
+        if isinstance(n, ast.Assign) and any(isinstance(t, ast.Name) and t.id == base.id for t in n.targets):
+            val = n.value
+        elif isinstance(n, ast.AnnAssign) and isinstance(n.target, ast.Name) and n.target.id == base.id and n.value is not None:
+            val = n.value
+        if val is None or any(a is outer for a in ancestors(n)):
+            continue
+        inits.append(n)
+        for s in sources_of(val):
+            if s not in srcs:
+                srcs.append(s)
+    if not inits:
+        return [base.id], []  # the iterated variable is itself the set (parameter or set built elsewhere)
+    return srcs, inits
+
+
+def _collection_of(e: ast.AST, params: list[str], single: dict[str, ast.expr], depth: int = 0, filters: list | None = None) -> tuple[str, list[str]] | None:
+    """(collection parameter, elements removed before iterating) for an iterated expression, resolving locals; the filters of a
+    filtered copy (`[x for x in P if c]`) are appended to `filters` as (condition, variable)."""
+    e = strip(e)
+    if isinstance(e, ast.Name):
+        if e.id in params:
+            return e.id, []
+        if e.id in single and depth < 4:
+            return _collection_of(single[e.id], params, single, depth + 1, filters)
+        return None
+    removed = None
+    inner = None
+    if isinstance(e, ast.BinOp) and isinstance(e.op, ast.Sub):
+        inner, removed = e.left, e.right
+    elif isinstance(e, ast.Call) and isinstance(e.func, ast.Attribute) and e.func.attr == "difference" and len(e.args) == 1:
+        inner, removed = e.func.value, e.args[0]
+    if inner is not None:
+        got = _collection_of(inner, params, single, depth + 1, filters)
+        r = strip(removed)
+        if got is not None and isinstance(r, (ast.Set, ast.List, ast.Tuple)) and all(isinstance(x, ast.Name) for x in r.elts):
+            return got[0], got[1] + [x.id for x in r.elts]
+        return None
+    if isinstance(e, _COMPS) and len(e.generators) == 1 and isinstance(e.elt, ast.Name) and isinstance(e.generators[0].target, ast.Name) and e.elt.id == e.generators[0].target.id and (not e.generators[0].ifs or filters is not None):
+        got = _collection_of(e.generators[0].iter, params, single, depth + 1, filters)
+        if got is not None and filters is not None:
+            filters += [(c, e.generators[0].target.id) for c in e.generators[0].ifs]
+        return got
+    return None
+
+
+def _binding_loop(name: str, at: ast.AST):
+    """(loop node, iterated expression) of the For / comprehension generator that binds `name` around `at`."""
+    for a in ancestors(at):
+        if isinstance(a, (ast.For, ast.AsyncFor)) and isinstance(a.target, ast.Name) and a.target.id == name:
+            return a, a.iter
+        if isinstance(a, (*_COMPS, ast.DictComp)):
+            for g in a.generators:
+                if isinstance(g.target, ast.Name) and g.target.id == name:
+                    return a, g.iter
+    return None
+
+
+def _is_base_of(call: ast.AST, value: ast.AST) -> bool:
+    """`value` is `call`, possibly converted (`set(..)`, `.copy()`) and with single nodes taken out (`call - {x}`, `call.difference(..)`,
+    either branch of a conditional expression): still the set computed by the call, up to the documented adjustments."""
+    v = strip(value)
+    if v is call:
+        return True
+    if isinstance(v, ast.BinOp) and isinstance(v.op, ast.Sub):
+        return _is_base_of(call, v.left)
+    if isinstance(v, ast.Call) and isinstance(v.func, ast.Attribute) and v.func.attr == "difference":
+        return _is_base_of(call, v.func.value)
+    if isinstance(v, ast.IfExp):
+        return _is_base_of(call, v.body) or _is_base_of(call, v.orelse)
+    return False
+
+
+def _receiving_var(call: ast.AST) -> tuple[str | None, bool]:
+    """(variable that receives the value of `call`, it is assigned exactly that value)."""
+    st = stmt_of(call)
+    if isinstance(st, ast.Assign) and len(st.targets) == 1 and isinstance(st.targets[0], ast.Name):
+        if _is_base_of(call, st.value):
+            return st.targets[0].id, True
+        # x = x | f(..) / x = x.union(f(..)) accumulate
+        return st.targets[0].id, False
+    if isinstance(st, ast.AnnAssign) and isinstance(st.target, ast.Name) and st.value is not None:
+        return st.target.id, _is_base_of(call, st.value)
+    if isinstance(st, ast.AugAssign) and isinstance(st.target, ast.Name):
+        return st.target.id, False
+    if isinstance(st, ast.Expr) and isinstance(st.value, ast.Call) and isinstance(st.value.func, ast.Attribute) and isinstance(st.value.func.value, ast.Name):
+        return st.value.func.value.id, False
+    return None, False
+
+
+def _subtree_sites(m: SearchModel, single: dict[str, ast.expr]) -> list[SubtreeSite]:
+    fn = m.fi.node
+    params = m.fi.param_names
+    out: list[SubtreeSite] = []
+    for c in ast.walk(fn):
+        if not (isinstance(c, ast.Call) and isinstance(c.func, ast.Name) and c.func.id == SUBMODULES and len(c.args) + len(c.keywords) == 2):
+            continue
+        arg_e = c.args[1] if len(c.args) == 2 else next((k.value for k in c.keywords if k.arg not in (None, "graph")), None)
+        arg = dotted(arg_e) if arg_e is not None else ""
+        target, assigned = _receiving_var(c)
+        site = SubtreeSite(c, arg, None, None, [], target, assigned, None)
+        bl = _binding_loop(arg, c) if arg else None
+        if bl is not None:
+            site.loop = bl[0]
+            flt: list = []
+            got = _collection_of(bl[1], params, single, 0, flt)
+            if got is not None:
+                site.collection, site.implicit_skips = got
+                site.extra = [(_renamed(c_, var, arg), True) for c_, var in flt]
+        elif arg in params:
+            site.param = arg
+        elif arg in single:
+            # a local standing for a parameter (x = dependent)
+            v = strip(single[arg])
+            if isinstance(v, ast.Name) and v.id in params:
+                site.param = v.id
+        site.guard = m.guard_of(c, site.extra)
+        out.append(site)
+    return out
+
+
+def _parent_ids(e: ast.AST, params: list[str], single: dict[str, ast.expr], depth: int = 0) -> list[str] | None:
+    """Filter parameters [p..] such that `e` evaluates to the identifiers of those of them that are parent-module filters."""
+    if depth > 6:
+        return None
+    e = strip(e)
+    if isinstance(e, ast.Name) and e.id in single:
+        return _parent_ids(single[e.id], params, single, depth + 1)
+    if isinstance(e, ast.Call) and isinstance(e.func, ast.Name) and e.func.id == "get_parent_nodes" and len(e.args) == 1:
+        seq = _param_seq(e.args[0], params, single)
+        return seq
+    if isinstance(e, _COMPS) and len(e.generators) == 1 and isinstance(e.generators[0].target, ast.Name):
+        g = e.generators[0]
+        t = g.target.id
+        inner = _parent_ids(g.iter, params, single, depth + 1)
+        if inner is not None and isinstance(e.elt, ast.Name) and e.elt.id == t and all(_is_not_none_test(c, t) for c in g.ifs):
+            return inner
+        seq = _param_seq(g.iter, params, single)
+        if seq is not None and _is_node_of(e.elt, t):
+            flags = [c for c in g.ifs if not _is_not_none_test(c, f"{t}.{NODE_ATTR}")]
+            if len(flags) == 1 and isinstance(flags[0], ast.Attribute) and dotted(flags[0]) == f"{t}.{PARENT_FLAG}":
+                return seq
+    return None
+
+
+def _is_not_none_test(c: ast.expr, text: str) -> bool:
+    return isinstance(c, ast.Compare) and len(c.ops) == 1 and isinstance(c.ops[0], ast.IsNot) and norm(c.left) == text and isinstance(c.comparators[0], ast.Constant) and c.comparators[0].value is None
+
+
+def _is_node_of(e: ast.AST, var: str) -> bool:
+    if isinstance(e, ast.Attribute) and e.attr == NODE_ATTR and dotted(e.value) == var:
+        return True
+    return isinstance(e, ast.Call) and isinstance(e.func, ast.Name) and e.func.id == "get_node" and len(e.args) == 1 and dotted(e.args[0]) == var
+
+
+def _param_seq(e: ast.AST, params: list[str], single: dict[str, ast.expr]) -> list[str] | None:
+    e = strip(e)
+    if isinstance(e, ast.Name) and e.id in single:
+        return _param_seq(single[e.id], params, single)
+    if isinstance(e, (ast.List, ast.Tuple, ast.Set)) and e.elts and all(isinstance(x, ast.Name) and x.id in params for x in e.elts):
+        return [x.id for x in e.elts]
     return None
 
 
 def build(repo: Repo, fi: FuncInfo) -> SearchModel | None:
-    calls = [c for c in calls_in(fi.node) if isinstance(c.func, ast.Attribute) and c.func.attr in (SUCC, PRED)]
-    if not calls:
+    v = search_view(repo, fi)
+    fn = v.node
+    exps = _expansions(fn)
+    if not exps:
         return None
-    in_loop = [c for c in calls if any(isinstance(a, ast.While) for a in ancestors(c))]
-    if len(in_loop) != 1:
-        raise AnalysisError(f"{fi.fq}: {len(in_loop)} neighbour expansions inside worklist loops (unknown idiom)")
-    ncall = in_loop[0]
+    bound = [(e, _binder(e)) for e in exps]
+    in_loop = [(e, b) for e, b in bound if b is not None]
+    same = bool(in_loop) and all(bb[1] is in_loop[0][1][1] and e.func.attr == in_loop[0][0].func.attr and norm(e.args[0]) == norm(in_loop[0][0].args[0]) and dotted(e.func.value) == dotted(in_loop[0][0].func.value) for e, bb in in_loop)
+    if not same:
+        raise AnalysisError(
+            f"{fi.fq}: {len(in_loop)} different neighbour expansions of nodes taken from a worklist / node loop (unknown search idiom; "
+            f"expansions found: {[norm(e) for e in exps]})"
+        )
+    ncall, b = in_loop[0]
+    ncalls = [e for e, _ in in_loop]  # the same expansion may be written several times (one pass per edge kind)
+    single = _single_assignments(fn)
     direction = "succ" if ncall.func.attr == SUCC else "pred"
     graph = dotted(ncall.func.value)
-    loop = next((a for a in ancestors(ncall) if isinstance(a, ast.While)), None)
-    if loop is None or not isinstance(loop.test, ast.Name):
-        raise AnalysisError(f"{fi.fq}: neighbour expansion is not inside `while <worklist>:`")
-    worklist = loop.test.id
-    popped = None
-    for s in loop.body:
-        if isinstance(s, ast.Assign) and is_attr_call(s.value, "pop") and dotted(s.value.func.value) == worklist and isinstance(s.targets[0], ast.Name):
-            popped = s.targets[0].id
-            break
-    if popped is None:
-        raise AnalysisError(f"{fi.fq}: worklist {worklist} is never popped into a variable")
-    if not (ncall.args and dotted(ncall.args[0]) == popped):
-        raise AnalysisError(f"{fi.fq}: neighbours are not those of the popped node: {norm(ncall)}")
-    # neighbour loop
-    st = stmt_of(ncall)
-    nvar_src = None
-    if isinstance(st, ast.Assign) and isinstance(st.targets[0], ast.Name):
-        nvar_src = st.targets[0].id
-    nloop = None
-    for n in ast.walk(loop):
-        if isinstance(n, ast.For) and ((nvar_src and dotted(n.iter) == nvar_src) or n.iter is ncall):
-            nloop = n
-    if nloop is None or not isinstance(nloop.target, ast.Name):
-        raise AnalysisError(f"{fi.fq}: loop over the neighbours not found")
-    nvar = nloop.target.id
-    visited = None
-    skip_sets = set()
-    for n in ast.walk(loop):
-        if isinstance(n, ast.If) and isinstance(n.test, ast.Compare) and len(n.test.ops) == 1 and isinstance(n.test.ops[0], ast.In) and dotted(n.test.left) in (popped, nvar) and len(n.body) == 1 and isinstance(n.body[0], ast.Continue):
-            skip_sets.add(dotted(n.test.comparators[0]))
-    for n in ast.walk(loop):
-        if is_attr_call(n, "add") and n.args and dotted(n.args[0]) in (popped, nvar) and dotted(n.func.value) in skip_sets:
-            visited = dotted(n.func.value)
-    hier_calls = [c for c in ast.walk(nloop) if isinstance(c, ast.Call) and isinstance(c.func, ast.Attribute) and c.func.attr == HIER]
-    model = SearchModel(fi, direction, graph, worklist, popped, visited, loop, nloop, nvar, ncall, hier_calls, None)
-    if hier_calls:
-        texts = {norm(c) for c in hier_calls}
-        if len(texts) != 1:
-            raise AnalysisError(f"{fi.fq}: several different hierarchy tests {sorted(texts)}")
-        model.hier_atom = f"bool({texts.pop()})"
-    rets = {dotted(s.value) for s in own_nodes(fi.node) if isinstance(s, ast.Return) and s.value is not None}
-    model.result_vars = {r for r in rets if r}
-    # subtree sets
-    params = fi.param_names
-    for n in own_nodes(fi.node):
-        if isinstance(n, ast.Assign) and isinstance(n.value, ast.Call) and isinstance(n.value.func, ast.Name) and n.value.func.id == SUBMODULES:
-            if len(n.value.args) == 2 and isinstance(n.targets[0], ast.Name):
-                model.submodule_sets[n.targets[0].id] = dotted(n.value.args[1])
-        if is_attr_call(n, "update") and n.args and isinstance(n.args[0], ast.Call) and isinstance(n.args[0].func, ast.Name) and n.args[0].func.id == SUBMODULES:
-            arg = dotted(n.args[0].args[1]) if len(n.args[0].args) == 2 else ""
-            # the element variable iterates a set-typed parameter
-            for a in ancestors(n):
-                if isinstance(a, ast.For) and dotted(a.target) == arg and dotted(a.iter) in params:
-                    model.accumulated_sets[dotted(n.func.value)] = dotted(a.iter)
-    # events
-    for c in calls_in(fi.node):
-        if not isinstance(c.func, ast.Attribute) or c.func.attr not in ("append", "add", "extend", "update", "insert", "appendleft"):
+    popped = ncall.args[0].id
+    kind = b[0]
+    if kind == "while":
+        outer, worklist, wl_expr = b[1], b[2], ast.Name(id=b[2], ctx=ast.Load())
+        loop_stmt = outer
+    else:
+        outer = b[1]
+        it = b[2] if kind == "for" else b[3]
+        base = strip(it)
+        worklist = base.id if isinstance(base, ast.Name) else norm(base)
+        wl_expr = it
+        loop_stmt = outer if kind == "for" else stmt_of(outer)
+    gen_j = b[2] if kind == "comp" else None
+
+    def in_outer(node: ast.AST) -> bool:
+        if kind == "comp":
+            return _inside_gen(node, outer, gen_j)
+        return _inside_body(node, outer)
+
+    # ---- neighbour iterations
+    def resolve(e: ast.AST, depth: int = 0):
+        """filters [(cond, var)] applied on the way from the expansion call to the iterated expression `e`; None if `e` is something else."""
+        e = strip(e)
+        if any(e is c for c in ncalls):
+            return []
+        if depth > 4:
+            return None
+        if isinstance(e, ast.Name) and e.id in single:
+            return resolve(single[e.id], depth + 1)
+        if isinstance(e, _COMPS) and len(e.generators) == 1 and isinstance(e.generators[0].target, ast.Name) and isinstance(e.elt, ast.Name) and e.elt.id == e.generators[0].target.id:
+            inner = resolve(e.generators[0].iter, depth + 1)
+            if inner is not None:
+                return inner + [(c, e.generators[0].target.id) for c in e.generators[0].ifs]
+        if isinstance(e, ast.Call) and not e.keywords and len(e.args) == 2 and dotted(e.func).split(".")[-1] in ("filter", "filterfalse") and isinstance(e.args[0], ast.Lambda):
+            lam = e.args[0]
+            if len(lam.args.args) == 1 and not (lam.args.posonlyargs or lam.args.kwonlyargs or lam.args.vararg or lam.args.kwarg):
+                inner = resolve(e.args[1], depth + 1)
+                if inner is not None:
+                    cond = lam.body if dotted(e.func).split(".")[-1] == "filter" else _negated(lam.body)
+                    return inner + [(cond, lam.args.args[0].arg)]
+        return None
+
+    iters: list[NeighbourIter] = []
+    for n in ast.walk(fn):
+        if isinstance(n, (ast.For, ast.AsyncFor)):
+            got = resolve(n.iter)
+            if got is not None:
+                if not isinstance(n.target, ast.Name):
+                    raise AnalysisError(f"{fi.fq}: neighbour loop `{norm(n.target)}` does not bind a single variable")
+                iters.append(NeighbourIter(n, None, n.target.id, [(_renamed(c, var, n.target.id), True) for c, var in got]))
+        elif isinstance(n, (*_COMPS, ast.DictComp)):
+            for j, g in enumerate(n.generators):
+                got = resolve(g.iter)
+                if got is not None and isinstance(g.target, ast.Name):
+                    iters.append(NeighbourIter(n, j, g.target.id, [(_renamed(c, var, g.target.id), True) for c, var in got]))
+    if not iters:
+        raise AnalysisError(f"{fi.fq}: no loop or comprehension over the neighbours `{norm(ncall)}` found")
+
+    def niter_of(node: ast.AST) -> NeighbourIter | None:
+        best = None
+        for it_ in iters:
+            inside = _inside_body(node, it_.node) if it_.gen is None else _inside_gen(node, it_.node, it_.gen)
+            if inside and (best is None or any(a is best.node for a in ancestors(it_.node))):
+                best = it_
+        return best
+
+    # prefer a statement loop as "the" neighbour loop (consumers read .neighbour_loop / .neighbour_var)
+    main_iter = next((i for i in iters if i.gen is None), iters[0])
+
+    rets = set()
+    for s in own_nodes(fn):
+        if isinstance(s, ast.Return) and s.value is not None:
+            r = strip(s.value)
+            if isinstance(r, ast.Name):
+                rets.add(r.id)
+    model = SearchModel(v, direction, graph, worklist, popped, None, loop_stmt, main_iter.node, main_iter.var, ncall, [], None)
+    model.base = fi
+    model.outer_kind = kind
+    model.neighbour_iters = iters
+    model.result_vars = rets
+    model.other_expansions = [e for e, bb in bound if bb is None]
+    model.neighbour_calls = ncalls
+    model.subst = make_subst(repo, v)
+    model.worklist_sources, model.worklist_inits = _worklist_sources(fn, wl_expr, outer, single)
+
+    # ---- hierarchy tests
+    model.hier_calls = [c for c in ast.walk(fn) if isinstance(c, ast.Call) and isinstance(c.func, ast.Attribute) and c.func.attr == HIER and (in_outer(c) or niter_of(c) is not None)]
+    if model.hier_calls:
+        model.hier_atom = model.hier()[1]
+
+    # ---- events
+    sites = [s for s in _mutation_sites(fn, single, rets)]
+    raw: list[tuple[_Site, ast.AST, ast.AST | None, NeighbourIter | None, Formula, str]] = []
+    for s in sites:
+        for elt, comp in s.elements:
+            inner_it = niter_of(elt) or niter_of(s.node)
+            inside_outer = in_outer(s.node) or in_outer(elt)
+            if not inside_outer and inner_it is None:
+                continue
+            extra: list = []
+            if comp is not None and not any(a is s.node for a in ancestors(elt)):
+                # element of a comprehension bound to a local and added later: its filters hold for the element
+                from core.cfg import expr_conditions
+
+                extra += expr_conditions(elt)
+                cs_ = all_conds(v, s.node) + extra
+            else:
+                cs_ = all_conds(v, elt)
+            its = [i for i in iters if (_inside_body(elt, i.node) if i.gen is None else _inside_gen(elt, i.node, i.gen)) or (_inside_body(s.node, i.node) if i.gen is None else _inside_gen(s.node, i.node, i.gen))]
+            for i in its:
+                cs_ += i.extra
+            g = conds_formula(cs_, model.subst)
+            text = " and ".join(("" if pol else "not ") + norm(e) for e, pol in cs_) or "True"
+            raw.append((s, elt, comp, inner_it, g, text))
+
+    # ---- two-phase events: candidates collected inside the neighbour iteration into a local list and pushed / recorded by a
+    #      later pass over that list (`W.extend(candidates)`, `for a, b in candidates if ..: R.append(..)`, `return [.. for a, b in
+    #      candidates if ..]`): the event happens under both guards
+    chained: list[tuple] = []
+    consumed: set[int] = set()
+    collectors: dict[str, list] = {}
+    sinks = {worklist, "<return>"} | rets
+    for s, elt, comp, it_, g, text in raw:
+        if it_ is not None and s.receiver.isidentifier() and s.receiver not in sinks and s.receiver not in v.param_names and s.method in ("append", "add", "extend", "update", "+="):
+            names = [x.id for x in elt.elts] if isinstance(elt, (ast.Tuple, ast.List)) and all(isinstance(x, ast.Name) for x in elt.elts) else [elt.id] if isinstance(elt, ast.Name) else None
+            if names:
+                collectors.setdefault(s.receiver, []).append((names, it_, all_conds(v, elt) + it_.extra, elt))
+    for s in sites:
+        if s.receiver not in sinks:
             continue
-        recv = dotted(c.func.value)
-        inside = any(a is nloop for a in ancestors(c))
-        in_while = any(a is loop for a in ancestors(c))
-        if not in_while:
+        for elt, comp in s.elements:
+            if niter_of(elt) is not None or niter_of(s.node) is not None:
+                continue
+            b_elt = strip(elt)
+            if comp is None and isinstance(b_elt, ast.Name) and b_elt.id in collectors:
+                # the collected list is added as a whole
+                for names, it_, ccs, c_elt in collectors[b_elt.id]:
+                    cs_ = list(ccs) + all_conds(v, s.node)
+                    g = conds_formula(cs_, model.subst)
+                    text = " and ".join(("" if pol else "not ") + norm(e_) for e_, pol in cs_) or "True"
+                    chained.append((s, c_elt, None, it_, g, text))
+                    consumed.add(id(elt))
+                continue
+            # the loop / generator that feeds the element
+            feeder = None
+            for a in ancestors(elt):
+                cands = [(a.target, a.iter)] if isinstance(a, (ast.For, ast.AsyncFor)) else [(g_.target, g_.iter) for g_ in a.generators] if isinstance(a, (*_COMPS, ast.DictComp)) else []
+                for tgt, it_expr in cands:
+                    src = strip(it_expr)
+                    if isinstance(src, ast.Name) and src.id in collectors:
+                        feeder = (tgt, src.id)
+                if feeder or isinstance(a, ast.stmt) and not isinstance(a, (ast.For, ast.AsyncFor, ast.If)):
+                    break
+            if feeder is None:
+                continue
+            tgt, lname = feeder
+            tnames = [x.id for x in tgt.elts] if isinstance(tgt, (ast.Tuple, ast.List)) and all(isinstance(x, ast.Name) for x in tgt.elts) else [tgt.id] if isinstance(tgt, ast.Name) else None
+            for names, it_, ccs, c_elt in collectors[lname]:
+                if tnames is None or len(tnames) != len(names):
+                    continue
+                late = [(e_, pol) for e_, pol in all_conds(v, elt)]
+                ren_elt = elt
+                for old_, new_ in zip(tnames, names):
+                    late = [(_renamed(e_, old_, f"{new_}\x00"), pol) for e_, pol in late]
+                    ren_elt = _renamed(ren_elt, old_, f"{new_}\x00")
+                for new_ in names:
+                    late = [(_renamed(e_, f"{new_}\x00", new_), pol) for e_, pol in late]
+                    ren_elt = _renamed(ren_elt, f"{new_}\x00", new_)
+                cs_ = list(ccs) + late
+                g = conds_formula(cs_, model.subst)
+                text = " and ".join(("" if pol else "not ") + norm(e_) for e_, pol in cs_) or "True"
+                chained.append((s, ren_elt, comp, it_, g, text))
+                consumed.add(id(elt))
+    raw = [r for r in raw if id(r[1]) not in consumed] + chained
+
+    # visited sets: a set to which the current node / neighbour is added only if it is not in it yet
+    nvars = {i.var for i in iters}
+    visited_sets: list[str] = []
+    for s, elt, comp, it_, g, text in raw:
+        if s.method in ("add", "update", "+=") and isinstance(elt, ast.Name) and elt.id in ({popped} | nvars) and s.receiver != worklist:
+            if implies(g, f_not(atom(f"{elt.id} in {s.receiver}"))) and f"{elt.id} in {s.receiver}" in atoms_of(g):
+                if s.receiver not in visited_sets:
+                    visited_sets.append(s.receiver)
+    visited_sets.sort(key=lambda r: 0 if any(s.receiver == r and isinstance(elt, ast.Name) and elt.id == popped for s, elt, *_ in raw) else 1)
+    model.visited_sets = visited_sets
+    model.visited = visited_sets[0] if visited_sets else None
+
+    for s, elt, comp, it_, g, text in raw:
+        if s.receiver == worklist:
+            k = "push"
+        elif s.receiver in visited_sets:
+            k = "mark"
+        elif s.receiver in rets or s.receiver == "<return>":
+            k = "record"
+        else:
             continue
-        kind = None
-        if recv == worklist:
-            kind = "push"
-        elif visited is not None and recv == visited:
-            kind = "mark"
-        elif recv in model.result_vars:
-            kind = "record"
-        if kind is None:
-            continue
-        cs_ = conds(fi, c)
-        # conditions established outside the while loop are irrelevant for the discipline
-        guard = guard_formula(fi, c)
-        what = norm(c.args[0]) if c.args else ""
-        model.events.append(Event(kind, c, what, guard, " and ".join(("" if pol else "not ") + norm(e) for e, pol in cs_) or "True", inside))
-    # role
+        model.events.append(Event(k, s.node, norm(elt), g, text, it_ is not None, elt, it_.var if it_ is not None else None, s.receiver))
+
+    # ---- parameters and sets
+    _classify_params(model, single)
+    model.subtree_sites = _subtree_sites(model, single)
+    for st in model.subtree_sites:
+        key = st.target if st.target is not None else norm(st.call)
+        if st.param is not None and (st.assigned or st.target is None):
+            model.submodule_sets.setdefault(key, st.param)
+        elif st.collection is not None and st.target is not None:
+            model.accumulated_sets.setdefault(st.target, st.collection)
+    for n in ast.walk(fn):
+        tgt = val = None
+        if isinstance(n, ast.Assign) and len(n.targets) == 1 and isinstance(n.targets[0], ast.Name):
+            tgt, val = n.targets[0].id, n.value
+        elif isinstance(n, ast.AnnAssign) and isinstance(n.target, ast.Name) and n.value is not None:
+            tgt, val = n.target.id, n.value
+        if tgt is not None:
+            ids = _parent_ids(val, v.param_names, {k: x for k, x in single.items() if k != tgt})
+            if ids is not None:
+                model.parent_id_sets[tgt] = ids
+    _loop_built_parent_ids(model, sites, single)
+    for n in ast.walk(fn):
+        if isinstance(n, ast.Call) and isinstance(n.func, ast.Attribute) and n.func.attr in ("add", "remove", "discard") and len(n.args) == 1 and dotted(n.func.value):
+            recv = dotted(n.func.value)
+            if recv in model.submodule_sets or recv in model.accumulated_sets:
+                model.set_ops.append(SetOp("add" if n.func.attr == "add" else "remove", recv, _node_expr_text(n.args[0], single), n, model.guard_of(n)))
+
+    # ---- role
     if fi.name == SUBMODULES:
         model.role = "submodules"
-    elif model.accumulated_sets:
+    elif model.accumulated_sets or model.collection_params:
         model.role = "other"
     else:
         model.role = "explicit"
+    _subject_object(model)
     return model
 
 
+def _is_empty_collection(e: ast.AST) -> bool:
+    e = strip(e)
+    if isinstance(e, (ast.List, ast.Tuple)) and not e.elts:
+        return True
+    return isinstance(e, ast.Call) and isinstance(e.func, ast.Name) and e.func.id in ("set", "list") and not e.args and not e.keywords
+
+
+def _loop_built_parent_ids(m: SearchModel, sites: list, single: dict[str, ast.expr]) -> None:
+    """`x = []` followed by `x.append(f.identifier)` exactly when `f.identifier_is_parent_module`, for f over a literal sequence of
+    filter parameters (loop or unrolled): x holds the parent-module identifiers of those parameters."""
+    from core.guards import equivalent
+
+    fn = m.fi.node
+    params = m.fi.param_names
+    by_recv: dict[str, list] = {}
+    for s_ in sites:
+        by_recv.setdefault(s_.receiver, []).append(s_)
+    shrinking = {dotted(n.func.value) for n in ast.walk(fn) if isinstance(n, ast.Call) and isinstance(n.func, ast.Attribute) and n.func.attr in ("remove", "discard", "clear", "pop", "difference_update")}
+    for x, ss in by_recv.items():
+        if x in m.parent_id_sets or x in shrinking or not x.isidentifier() or x in params:
+            continue
+        inits = [n for n in ast.walk(fn) if (isinstance(n, ast.Assign) and len(n.targets) == 1 and isinstance(n.targets[0], ast.Name) and n.targets[0].id == x) or (isinstance(n, ast.AnnAssign) and isinstance(n.target, ast.Name) and n.target.id == x and n.value is not None)]
+        if len(inits) != 1 or not _is_empty_collection(inits[0].value):
+            continue
+        ids: list[str] = []
+        ok = True
+        for s_ in ss:
+            for elt, comp in s_.elements:
+                t = dotted(elt.value) if isinstance(elt, ast.Attribute) and elt.attr == NODE_ATTR else dotted(elt.args[0]) if isinstance(elt, ast.Call) and isinstance(elt.func, ast.Name) and elt.func.id == "get_node" and len(elt.args) == 1 else ""
+                if not t:
+                    ok = False
+                    continue
+                if t in params:
+                    ps, outer_g = [t], None
+                else:
+                    bl = _binding_loop(t, elt)
+                    ps = _param_seq(bl[1], params, single) if bl is not None else None
+                    outer_g = m.guard_of(bl[0] if isinstance(bl[0], ast.stmt) else stmt_of(bl[0])) if bl is not None else None
+                if not ps:
+                    ok = False
+                    continue
+                g = m.guard_of(elt)
+                flag = atom(f"bool({t}.{PARENT_FLAG})")
+                not_none = f_not(atom(f"{t}.{NODE_ATTR} is None"))
+                want = f_and([outer_g, flag]) if outer_g is not None else flag
+                if not equivalent(g, want, not_none):
+                    ok = False
+                ids += [p_ for p_ in ps if p_ not in ids]
+        if ok and ids:
+            m.parent_id_sets[x] = ids
+
+
+def _classify_params(m: SearchModel, single: dict[str, ast.expr]) -> None:
+    fn = m.fi.node
+    params = m.fi.param_names
+    coll: list[str] = []
+    filt: list[str] = []
+    for n in ast.walk(fn):
+        it = None
+        if isinstance(n, (ast.For, ast.AsyncFor)):
+            it = n.iter
+        elif isinstance(n, ast.comprehension):
+            it = n.iter
+        if it is not None:
+            got = _collection_of(it, params, single)
+            if got is not None and got[0] not in coll and got[0] != m.graph:
+                coll.append(got[0])
+        if isinstance(n, ast.Attribute) and n.attr in (NODE_ATTR, PARENT_FLAG) and isinstance(n.value, ast.Name) and n.value.id in params and n.value.id not in filt:
+            filt.append(n.value.id)
+        if isinstance(n, ast.Call) and isinstance(n.func, ast.Name) and n.func.id == SUBMODULES and len(n.args) == 2 and isinstance(n.args[1], ast.Name) and n.args[1].id in params and n.args[1].id not in filt:
+            filt.append(n.args[1].id)
+    # annotations decide for parameters the body does not use in a telling way (only parameters that carry module filters)
+    for a in m.fi.params:
+        if a.arg in coll or a.arg in filt or a.arg == m.graph or a.annotation is None:
+            continue
+        t = norm(a.annotation)
+        if "ModuleFilter" not in t:
+            continue
+        if "[" in t:
+            coll.append(a.arg)
+        else:
+            filt.append(a.arg)
+    m.collection_params = [p for p in params if p in coll and p not in filt]
+    m.filter_params = [p for p in params if p in filt]
+
+
+def _subject_object(m: SearchModel) -> None:
+    if m.role == "other":
+        m.subject_param = m.filter_params[0] if len(m.filter_params) == 1 else None
+        m.object_param = m.collection_params[0] if len(m.collection_params) == 1 else None
+    elif m.role == "explicit":
+        seeds = [p for p in m.filter_params if any(s == f"{p}.{NODE_ATTR}" or s == p for s in m.worklist_sources)]
+        if len(seeds) == 1:
+            m.subject_param = seeds[0]
+            rest = [p for p in m.filter_params if p != seeds[0]]
+            m.object_param = rest[0] if len(rest) == 1 else None
+    else:
+        m.subject_param = m.filter_params[0] if len(m.filter_params) == 1 else None
+
+
+def search_functions(repo: Repo) -> list[FuncInfo]:
+    """Public module-level functions of the search module (private helpers are reached through the inline views)."""
+    mod = repo.module(SEARCHES)
+    return [f for f in mod.all_funcs if f.cls is None and f.outer is None and not isinstance(f.node, ast.Lambda) and not f.name.startswith("_")]
+
+
 def models(repo: Repo) -> list[SearchModel]:
+    cache = repo.__dict__.setdefault("_search_models", None)
+    if cache is not None:
+        return cache
     out = []
-    for fi in repo.module(SEARCHES).all_funcs:
+    covered: set[str] = set()
+    for fi in search_functions(repo):
         m = build(repo, fi)
         if m is not None:
             out.append(m)
-    if len(out) < 4:
-        raise AnalysisError(f"only {len(out)} graph searches found in {SEARCHES} (expected the explicit search, two 'other' searches and the sub-module search)")
+            covered |= set(getattr(m.fi, "inlined", []))
+    covered |= {m.base.fq for m in out}
+    # a private function that walks the graph but could not be substituted into a public search is outside the model
+    for f in repo.module(SEARCHES).all_funcs:
+        if f.fq not in covered and f.cls is None and not isinstance(f.node, ast.Lambda) and f.outer is None and _expansions(f.node) and f.name.startswith("_"):
+            raise AnalysisError(f"{f.fq}: expands graph neighbours but is not substitutable into a public search function (generator, recursion or unresolved call): search idiom not modelled")
+    roles = sorted((m.role, m.direction) for m in out)
+    need = [("explicit", "succ"), ("other", "pred"), ("other", "succ"), ("submodules", "succ")]
+    missing = [r for r in need if r not in roles]
+    if missing:
+        raise AnalysisError(f"graph searches in {SEARCHES}: found {roles}, missing {missing} (expected the explicit search, the forward and the backward 'other' search and the sub-module search)")
+    repo.__dict__["_search_models"] = out
     return out
 
 
+# --------------------------------------------------------------------------- queries used by the rules
+
+
 def record_pair(model: SearchModel, ev: Event) -> tuple[str, str] | None:
-    """(first, second) variable of a recorded pair `tuple(to_modules([a, b]))` / `(a, b)`."""
-    e = ev.call.args[0] if ev.call.args else None
-    for n in ast.walk(e) if e is not None else []:
-        if isinstance(n, (ast.List, ast.Tuple)) and len(n.elts) == 2 and all(isinstance(x, ast.Name) for x in n.elts):
-            return n.elts[0].id, n.elts[1].id
+    """(first, second) node variable of a recorded pair: the first two-element list / tuple whose elements each mention exactly
+    one of the current node and the neighbour (`tuple(to_modules([a, b]))`, `(Module(identifier=a), Module(identifier=b))`)."""
+    e = ev.elt if ev.elt is not None else (ev.call.args[0] if isinstance(ev.call, ast.Call) and ev.call.args else None)
+    if e is None:
+        return None
+    nv = ev.nvar or model.neighbour_var
+    want = {model.popped, nv}
+    single = _single_assignments(model.fi.node)
+
+    def expand(x: ast.AST, depth: int = 0) -> ast.AST:
+        """locals bound once (`pair = (..)`, temporaries of substituted helpers) are replaced by their value"""
+        if depth > 4:
+            return x
+
+        class Tr(ast.NodeTransformer):
+            def visit_Name(self, n: ast.Name):  # noqa: N802
+                if isinstance(n.ctx, ast.Load) and n.id in single and n.id not in want and n.id not in model.fi.param_names:
+                    return expand(_clone(single[n.id]), depth + 1)
+                return n
+
+            def visit_Lambda(self, n):  # noqa: N802
+                return n
+
+        return Tr().visit(_clone(x))
+
+    todo = [expand(e)]
+    while todo:
+        n = todo.pop(0)
+        if isinstance(n, ast.Call) and isinstance(n.func, ast.Name) and not n.keywords and len(n.args) >= 2:
+            got = _pair_through_helper(model, n, want)
+            if got is not None:
+                return got
+        if isinstance(n, (ast.List, ast.Tuple)) and len(n.elts) == 2:
+            ms = []
+            for x in n.elts:
+                names = {y.id for y in ast.walk(x) if isinstance(y, ast.Name) and isinstance(y.ctx, ast.Load)} & want
+                ms.append(next(iter(names)) if len(names) == 1 else None)
+            if ms[0] and ms[1] and ms[0] != ms[1]:
+                return ms[0], ms[1]
+        if isinstance(n, ast.Lambda):
+            continue
+        todo.extend(ast.iter_child_nodes(n))
     return None
+
+
+def _pair_through_helper(model: SearchModel, call: ast.Call, want: set[str]) -> tuple[str, str] | None:
+    """`helper(a, b)` where the helper returns a pair built from its parameters: the pair in terms of the arguments."""
+    repo = model.fi.module.repo  # type: ignore[attr-defined]
+    src = getattr(call, "_src", None)
+    mod = src[0].module if src is not None else model.fi.module
+    f = mod.functions.get(call.func.id)
+    if f is None:
+        fq = repo.resolve_name(mod, call.func)
+        if fq:
+            m2, _, attr = fq.rpartition(".")
+            om = repo.modules.get(m2)
+            f = om.functions.get(attr) if om is not None else None
+    if f is None or isinstance(f.node, ast.Lambda) or len(f.param_names) < len(call.args):
+        return None
+    arg_of: dict[str, str] = {}
+    for p_, a in zip(f.param_names, call.args):
+        names = {y.id for y in ast.walk(a) if isinstance(y, ast.Name)} & want
+        if len(names) == 1:
+            arg_of[p_] = next(iter(names))
+    if len(set(arg_of.values())) != 2:
+        return None
+    hv = search_view(repo, f)
+    single = _single_assignments(hv.node)
+
+    def expand(e: ast.AST, depth: int = 0) -> ast.AST:
+        if depth > 3:
+            return e
+
+        class Tr(ast.NodeTransformer):
+            def visit_Name(self, n: ast.Name):  # noqa: N802
+                if isinstance(n.ctx, ast.Load) and n.id in single and n.id not in arg_of:
+                    return expand(_clone(single[n.id]), depth + 1)
+                return n
+
+            def visit_Lambda(self, n):  # noqa: N802
+                return n
+
+        return Tr().visit(_clone(e))
+
+    for r in own_nodes(hv.node):
+        if isinstance(r, ast.Return) and r.value is not None:
+            todo = [expand(r.value)]
+            while todo:
+                n = todo.pop(0)
+                if isinstance(n, (ast.List, ast.Tuple)) and len(n.elts) == 2:
+                    ms = []
+                    for x in n.elts:
+                        names = {y.id for y in ast.walk(x) if isinstance(y, ast.Name) and isinstance(y.ctx, ast.Load)} & set(arg_of)
+                        ms.append(next(iter(names)) if len(names) == 1 else None)
+                    if ms[0] and ms[1] and ms[0] != ms[1]:
+                        return arg_of[ms[0]], arg_of[ms[1]]
+                if isinstance(n, ast.Lambda):
+                    continue
+                todo.extend(ast.iter_child_nodes(n))
+    return None
+
+
+def opaque_set(m: SearchModel, name: str) -> bool:
+    """The model cannot see how the node set `name` is made (a parameter, or the result of a call it cannot look into); a set
+    built from literals, comprehensions or known constructors is transparent - and then known not to be a sub-tree set."""
+    if not name.isidentifier() or name in m.fi.param_names:
+        return True
+    vals = []
+    for n in ast.walk(m.fi.node):
+        if isinstance(n, ast.Assign) and any(isinstance(t, ast.Name) and t.id == name for t in n.targets):
+            vals.append(n.value)
+        elif isinstance(n, ast.AnnAssign) and isinstance(n.target, ast.Name) and n.target.id == name and n.value is not None:
+            vals.append(n.value)
+    if not vals:
+        return True
+    for n in ast.walk(m.fi.node):
+        # built up by statements the model did not recognise as one of its known constructions
+        if isinstance(n, ast.Call) and isinstance(n.func, ast.Attribute) and dotted(n.func.value) == name and n.func.attr in ("add", "append", "update", "extend", "remove", "discard", "difference_update", "intersection_update", "clear", "pop"):
+            return True
+        if isinstance(n, ast.AugAssign) and dotted(n.target) == name:
+            return True
+    for v in vals:
+        for c in ast.walk(v):
+            if isinstance(c, ast.Call):
+                if isinstance(c.func, ast.Name) and c.func.id in (_WRAPPERS | {SUBMODULES, "dict", "len", "map", "filter", "get_node"}):
+                    continue
+                if isinstance(c.func, ast.Attribute) and c.func.attr in ("copy", "union", "difference", "intersection", "keys", "values", "items"):
+                    continue
+                return True
+    return False
+
+
+# --------------------------------------------------------------------------- early exits
+
+
+@dataclass
+class EarlyExit:
+    loop_kind: str  # neighbour | outer
+    loop: ast.AST
+    stmt: ast.stmt  # ast.Break | ast.Return
+    guard: Formula
+    guard_text: str
+    anchor: ast.AST  # statement naming the exit in construct keys (the enclosing `if`, else the exit itself)
+
+
+def _exits_of(loop: ast.AST, skip: list[ast.AST]) -> list[ast.stmt]:
+    """`break` statements that leave `loop` and `return` statements inside its body (not those inside the loops in `skip`)."""
+    out: list[ast.stmt] = []
+
+    def walk(stmts: list[ast.stmt], nested: bool) -> None:
+        for st in stmts:
+            if any(st is x for x in skip) or isinstance(st, (ast.FunctionDef, ast.AsyncFunctionDef, ast.ClassDef)):
+                continue
+            if isinstance(st, ast.Break) and not nested:
+                out.append(st)
+            elif isinstance(st, ast.Return):
+                out.append(st)
+            inner = nested or isinstance(st, (ast.For, ast.AsyncFor, ast.While))
+            for fld in ("body", "orelse", "finalbody"):
+                blk = getattr(st, fld, None)
+                if isinstance(blk, list) and blk and isinstance(blk[0], ast.stmt):
+                    # the else of a loop runs after the loop: a break there leaves the enclosing loop
+                    walk(blk, inner if fld == "body" else nested)
+            if isinstance(st, ast.Try):
+                for h in st.handlers:
+                    walk(h.body, nested)
+            if isinstance(st, ast.Match):
+                for c in st.cases:
+                    walk(c.body, nested)
+
+    walk(loop.body, False)
+    return out
+
+
+def early_exits(m: SearchModel) -> list[EarlyExit]:
+    """Exits that leave the neighbour iteration or the node loop before all neighbours / all worklist nodes were examined.
+    `continue`, guard clauses and `raise` are not exits in this sense; `while True: if not W: break` (the worklist is empty) is
+    the loop's regular end."""
+    out: list[EarlyExit] = []
+    nloops = [i.node for i in m.neighbour_iters if i.gen is None]
+
+    def mk(kind: str, loop: ast.AST, st: ast.stmt) -> EarlyExit:
+        cs_ = all_conds(m.fi, st)
+        par = parent(st)
+        anchor = par if isinstance(par, ast.If) and len(par.body if any(x is st for x in par.body) else par.orelse) == 1 else st
+        return EarlyExit(kind, loop, st, conds_formula(cs_, m.subst), " and ".join(("" if pol else "not ") + norm(e) for e, pol in cs_) or "True", anchor)
+
+    for nl in nloops:
+        out += [mk("neighbour", nl, st) for st in _exits_of(nl, [])]
+    if m.outer_kind in ("while", "for") and isinstance(m.loop, (ast.While, ast.For, ast.AsyncFor)):
+        for st in _exits_of(m.loop, nloops):
+            ee = mk("outer", m.loop, st)
+            if isinstance(st, ast.Break) and implies(ee.guard, f_not(atom(f"bool({m.worklist})"))) and f"bool({m.worklist})" in atoms_of(ee.guard):
+                continue  # regular end of a `while True` worklist loop
+            out.append(ee)
+    return out
+
+
+# --------------------------------------------------------------------------- raising lookups (C13.R6)
+
+
+@dataclass
+class LookupFact:
+    model: SearchModel
+    param: str
+    ok: bool
+    detail: str
+    how: str  # subtree | elements | first-iteration | none
+
+
+def _loop_has_escape(loop: ast.AST) -> bool:
+    """break / return inside a statement loop: later elements can be skipped."""
+    if not isinstance(loop, (ast.For, ast.AsyncFor, ast.While)):
+        return False
+    for s in loop.body:
+        for n in ast.walk(s):
+            if isinstance(n, (ast.Break, ast.Return)):
+                return True
+    return False
+
+
+def _unconditional_in_stmt(node: ast.AST) -> bool:
+    from core.cfg import expr_conditions
+
+    return not expr_conditions(node)
+
+
+def control_conditions(fn: ast.AST, node: ast.AST) -> list:
+    """[(test, polarity)] under which `node` is *reached*: enclosing branch tests and the negations of earlier early exits of
+    the enclosing blocks, each meant at the moment it was evaluated (unlike the path conditions of core/cfg.py nothing is
+    dropped when a tested set is mutated later: `if n in seen: continue; seen.add(n); expand(n)` is reached under `n not in seen`)."""
+    from core.cfg import always_exits, expr_conditions
+
+    st = stmt_of(node)
+    out: list = list(expr_conditions(node))
+    cur: ast.AST | None = st
+    while cur is not None and cur is not fn:
+        par = parent(cur)
+        if par is None:
+            break
+        for fld in ("body", "orelse", "finalbody"):
+            blk = getattr(par, fld, None)
+            if isinstance(blk, list) and any(x is cur for x in blk):
+                for prev in blk:
+                    if prev is cur:
+                        break
+                    if isinstance(prev, ast.If):
+                        if always_exits(prev.body):
+                            out.append((prev.test, False))
+                        if prev.orelse and always_exits(prev.orelse):
+                            out.append((prev.test, True))
+                if isinstance(par, ast.If):
+                    out.append((par.test, fld == "body"))
+                elif isinstance(par, ast.While) and fld == "body":
+                    out.append((par.test, True))
+        cur = par
+    return out
+
+
+def first_iteration_lookup(m: SearchModel, p: str) -> tuple[bool, str]:
+    """The node of filter parameter `p` is in the initial worklist and the first iteration hands it to the raising accessor:
+    unconditional, non-empty initialisation `W = [.., p.identifier, ..]`; nothing but the visited test (on sets that start
+    empty) and the worklist test guards the neighbour lookup; the loop is on every path to the normal exit."""
+    from core.cfg import EXIT
+
+    v = m.fi
+    cfg = cfg_of(v)
+    node_text = f"{p}.{NODE_ATTR}"
+    if m.outer_kind == "comp":
+        return False, "the node loop is a comprehension"
+    if len(m.worklist_inits) != 1:
+        return False, f"the worklist `{m.worklist}` is initialised {len(m.worklist_inits)} times"
+    init = m.worklist_inits[0]
+    val = strip(init.value)
+    if isinstance(val, ast.Call) and isinstance(val.func, ast.Name) and val.func.id == "deque" and val.args:
+        val = strip(val.args[0])
+    if not (isinstance(val, (ast.List, ast.Tuple)) and val.elts and not any(isinstance(x, ast.Starred) for x in val.elts)):
+        return False, f"the worklist starts as `{norm(init.value)}`, not as a non-empty literal list"
+    single = _single_assignments(v.node)
+    if node_text not in [_node_expr_text(x, single) for x in val.elts]:
+        return False, f"the node of `{p}` is not in the initial worklist `{norm(init.value)}`"
+    if not cfg.dominates(init, m.loop):
+        return False, "the worklist initialisation is conditional"
+    # the worklist is not touched between its initialisation and the loop
+    for n in ast.walk(v.node):
+        if isinstance(n, ast.Call) and isinstance(n.func, ast.Attribute) and dotted(n.func.value) == m.worklist and n.func.attr in ("pop", "clear", "remove", "popleft") and not any(a is m.loop for a in ancestors(n)):
+            return False, f"`{norm(n)}` empties the worklist before the loop"
+    if not cfg.dominates(m.loop, EXIT):
+        return False, "a path returns without entering the search loop"
+    # conditions inside the loop under which the neighbour lookup is reached (as evaluated in the first iteration)
+    inner = [(e, pol) for e, pol in control_conditions(v.node, m.neighbour_call) if any(a is m.loop for a in ancestors(e)) or e is getattr(m.loop, "test", None)]
+    g = conds_formula(inner, m.subst)
+    assume = [f_not(atom(f"{m.popped} is None"))]  # graph nodes are names, never None
+    if isinstance(m.loop, ast.While):
+        assume.append(atom(f"bool({m.worklist})"))  # the literal initial worklist is not empty
+    for a in sorted(atoms_of(g)):
+        for vs in m.visited_sets:
+            if a == f"{m.popped} in {vs}":
+                inits = [n for n in ast.walk(v.node) if (isinstance(n, ast.Assign) and any(isinstance(t, ast.Name) and t.id == vs for t in n.targets)) or (isinstance(n, ast.AnnAssign) and isinstance(n.target, ast.Name) and n.target.id == vs and n.value is not None)]
+                empty = len(inits) == 1 and isinstance(inits[0].value, ast.Call) and isinstance(inits[0].value.func, ast.Name) and inits[0].value.func.id in ("set", "list", "frozenset") and not inits[0].value.args and not inits[0].value.keywords
+                if not empty:
+                    return False, f"the visited set `{vs}` does not start empty: the start node may be skipped"
+                assume.append(f_not(atom(a)))
+    if not implies(f_and(assume), g):
+        return False, f"the neighbour lookup of the first node is guarded by `{show(g)}`"
+    if not _unconditional_in_stmt(m.neighbour_call):
+        return False, "the neighbour lookup sits in a short-circuit / conditional expression"
+    return True, f"the node of `{p}` is expanded by the raising accessor in the first iteration"
+
+
+def lookup_facts(repo: Repo) -> list[LookupFact]:
+    """For every search and every module-filter parameter: does every named module reach a raising graph lookup
+    (`get_all_submodules_of`, or the neighbour accessor in the first iteration) on every path to the normal exit?"""
+    from core.cfg import EXIT
+
+    out: list[LookupFact] = []
+    for m in models(repo):
+        v = m.fi
+        cfg = cfg_of(v)
+        for p in v.param_names:
+            if p == m.graph or (p not in m.filter_params and p not in m.collection_params):
+                continue
+            if p in m.collection_params:
+                subj = m.subject_param
+                good = False
+                why = f"no loop looks up every element of `{p}` by {SUBMODULES}(graph, element)"
+                for st in m.subtree_sites:
+                    if st.collection != p or st.loop is None:
+                        continue
+                    loop_stmt = st.loop if isinstance(st.loop, ast.stmt) else stmt_of(st.loop)
+                    if not cfg.dominates(loop_stmt, EXIT):
+                        why = f"the loop over `{p}` is not on every path to the normal exit"
+                        continue
+                    if _loop_has_escape(st.loop):
+                        why = f"the loop over `{p}` can be left before every element was looked up"
+                        continue
+                    if any(sk != subj for sk in st.implicit_skips):
+                        why = f"elements {st.implicit_skips} of `{p}` are never looked up"
+                        continue
+                    # inside the loop the lookup may only be skipped for the element equal to the subject (looked up on its own)
+                    g_loop = m.guard_of(loop_stmt)
+                    ok_skip = implies(g_loop, st.guard)
+                    if not ok_skip and subj is not None:
+                        a, b = sorted([st.arg, subj])
+                        ok_skip = implies(f_and([g_loop, f_not(atom(f"{a} == {b}"))]), st.guard)
+                    if not ok_skip:
+                        why = f"the lookup of an element of `{p}` is skipped under more than `element == {subj}`: `{show(st.guard)}`"
+                        continue
+                    good = True
+                    break
+                out.append(LookupFact(m, p, good, f"every element of `{p}` is looked up in the graph (raising for an unknown module) on every path" if good else f"an element of `{p}` can escape the raising graph lookup {SUBMODULES}(graph, element): a misspelt module name yields a verdict ({why})", "elements" if good else "none"))
+                continue
+            # one filter
+            direct = [st for st in m.subtree_sites if st.param == p and cfg.dominates(stmt_of(st.call), EXIT) and _unconditional_in_stmt(st.call)]
+            single = _single_assignments(v.node)
+            early = [e for e in m.other_expansions if e.args and _node_expr_text(e.args[0], single) == f"{p}.{NODE_ATTR}" and cfg.dominates(stmt_of(e), EXIT) and _unconditional_in_stmt(e)]
+            if early:
+                out.append(LookupFact(m, p, True, f"the node of `{p}` is handed to the raising accessor `{norm(early[0])}` on every path", "accessor"))
+                continue
+            if direct and m.role != "submodules":
+                out.append(LookupFact(m, p, True, f"`{p}` reaches a raising graph lookup on every path before the function returns", "subtree"))
+                continue
+            if m.role == "submodules" or p == m.subject_param:
+                ok, why = first_iteration_lookup(m, p)
+                if ok:
+                    out.append(LookupFact(m, p, True, why, "first-iteration"))
+                    continue
+                detail = f"`{p}` may not reach the raising accessor ({why})" if m.role == "submodules" else f"a path through {v.name} returns without `{p}` having been looked up in the graph: a rule naming a module that does not exist gets a verdict instead of a lookup error ({why})"
+                out.append(LookupFact(m, p, False, detail, "none"))
+                continue
+            out.append(LookupFact(m, p, False, f"a path through {v.name} returns without `{p}` having been looked up in the graph: a rule naming a module that does not exist gets a verdict instead of a lookup error", "none"))
+    return out
 
 
 def membership(var: str, setvar: str) -> Formula:
